@@ -1,34 +1,47 @@
 """C11 — check selection, config inheritance, exit status and formats agree.
 
-Lean: Verif/C11/{Model,Lemmas,Theorems}.lean (model of config.mergeLists/Merge/parseConfigs/
-mergeConfigs/normalizeList/Load, the command-line merge, lintcmd.filterAnalyzerNames,
-success, and the counting/exit part of printDiagnostics; theorems selection_spec,
-inherit_splice, effective_selection, printed_spec, exit_spec, ...).
+Lean (Verif/C11):
+  Model/Lemmas/Theorems   config.mergeLists/Merge/parseConfigs/mergeConfigs/normalizeList/Load, the
+                          command-line merge, lintcmd.filterAnalyzerNames (Unicode tables on a probed
+                          alphabet), success, counting/exit part of printDiagnostics
+  Format/FormatTheorems   rich problems, classify/shownProblems, the four formatters as abstract
+                          renderings, stats, exit code 2 paths; *_extract, formats_agree,
+                          formats_same_problems, severity_spec, sarif_suppression_spec, ...
+  Package/PackageTheorems config.Dir + Analyzer.Run + runner merge over arbitrary directory trees,
+                          success + filterIgnored (directive problems depend on the selection);
+                          package_selection, conf_scope, lintPackage_full_spec, ...
 
-Tie X, no hooks, three streams, each compared with the model (c11driver) and with an
-independent Python evaluation of the documented algebra (the oracle):
-  A  load   in-process: the real config.Load on generated directory trees of
-            staticcheck.conf files + the real Config.Merge with the command-line list;
-  B  merge  in-process: the real lintcmd.Command (`-merge`) on gob-crafted results:
-            filterAnalyzerNames on -fail over generated analyzer universes, counting, exit
-            status and the four formatters, stdout parsed back;
-  C  cli    the real staticcheck binary built from the current tree on a fixed
-            "one problem per check" module under generated -checks/-fail/-show-ignored and
-            nested staticcheck.conf trees x -f text|stylish|json|sarif, plus the corpus
-            (ignored-only module, malformed/useless directives, broken conf, compile
-            error) and a few `staticcheck -merge` runs.
+Tie X (no new hook; go:linkname + the exported C10 wrapper), every stream compared with the model
+(c11driver) and with an independent Python evaluation of the documented algebra (the oracle):
+  chars    the Unicode tables of the model against the Go library on the whole alphabet
+  sel      in-process: the real filterAnalyzerNames (+ makeCaseFoldedStrings) on every generated list
+  tree     in-process: the real config.Analyzer.Run / Dir / Load + Merge + filterAnalyzerNames per
+           package of generated directory trees (cached files, files in several directories)
+  lintpkg  in-process: the real filterAnalyzerNames -> success -> filterIgnored
+  load     in-process: the real config.Load on directory chains (incl. the normalizeList panic)
+  merge    in-process: the real lintcmd.Command (`-merge`) on gob-crafted results with end positions,
+           related information, build names, -debug.no-compile-errors, unusable formats (exit 2):
+           exit status, printed set, and all four renderings field by field against the model's
+           rendering and against each other
+  cli      the real staticcheck binary on a fixed "one problem per check" module under generated
+           -checks/-fail/-show-ignored and nested staticcheck.conf trees x -f text|stylish|json|sarif;
+           the model renders the reference problems restricted to the documented selection
+  corpus   fixed modules (ignored-only, directives, broken conf, compile error, related information,
+           test variants, useless directive of an unselected check, exit code 2 paths)
+  binmerge `staticcheck -merge` of the real binary
 """
 import json
 import os
 import re
 import shutil
 import threading
+import unicodedata
 import urllib.parse
 from concurrent.futures import ThreadPoolExecutor
 
 import vlib
 
-MODULES = ["Verif.C11.Theorems"]
+MODULES = ["Verif.C11.Theorems", "Verif.C11.FormatTheorems", "Verif.C11.PackageTheorems"]
 THEOREMS = [
     "Verif.C11.selection_spec",
     "Verif.C11.lastMatch_iff",
@@ -52,7 +65,33 @@ THEOREMS = [
     "Verif.C11.exit_zero_or_one",
     "Verif.C11.sarif_exits_zero",
     "Verif.C11.shown_spec",
+    # formatters (FormatTheorems.lean)
+    "Verif.C11.shown_problems_spec",
+    "Verif.C11.severity_spec",
+    "Verif.C11.ignored_only_with_show_ignored",
+    "Verif.C11.text_extract",
+    "Verif.C11.stylish_extract",
+    "Verif.C11.json_extract",
+    "Verif.C11.json_severity_spec",
+    "Verif.C11.sarif_extract",
+    "Verif.C11.sarif_related_ids",
+    "Verif.C11.sarif_suppression_spec",
+    "Verif.C11.sarif_rules_sorted",
+    "Verif.C11.formats_agree",
     "Verif.C11.formats_same_problems",
+    "Verif.C11.stylish_stats_spec",
+    "Verif.C11.exit_from_counts",
+    "Verif.C11.exit_code_spec",
+    # per-package configuration and directive problems (PackageTheorems.lean)
+    "Verif.C11.tree_config_is_fold",
+    "Verif.C11.package_selection",
+    "Verif.C11.conf_scope",
+    "Verif.C11.inner_conf_overrides",
+    "Verif.C11.variants_same_config",
+    "Verif.C11.only_cached_default",
+    "Verif.C11.lintPackage_full_spec",
+    "Verif.C11.unselected_directive_silent",
+    "Verif.C11.printed_restricted_full",
 ]
 FORMATS = ["text", "stylish", "json", "sarif"]
 SPECIAL = ("staticcheck", "compile", "config")
@@ -64,8 +103,37 @@ PKGS = ["", "a", "a/b"]          # packages of the fixture, relative to the modu
 # The documented algebra, evaluated independently of the Lean model
 # (website/content/docs/configuration/{_index,options}.md, comments of filterAnalyzerNames).
 
+# --- the alphabet: ASCII plus the non-ASCII characters of the tables of Model.lean. The three
+# implementations of "is a number" / "lower case" (Go library, Lean tables, this oracle) are
+# compared on every character of the alphabet at the start of every run (phase chars).
+NUMBER_CHARS = "\u0663\u00b2\u00bd\u2167\u2177\uff15\u09ea\u3007"
+LOWER_PAIRS = {"\u00c9": "\u00e9", "\u00c4": "\u00e4", "\u03a3": "\u03c3", "\u0130": "i", "\u212a": "k",
+               "\u01c5": "\u01c6", "\u2167": "\u2177", "\uff21": "\uff41", "\u1e9e": "\u00df"}
+PLAIN_CHARS = "\u00e9\u00e4\u03c3\u03c2\u0131\u01c6\uff41\u00df\u4e2d\u0390\u0149"
+ALPHABET = [chr(i) for i in range(0x20, 0x7f)] + sorted(set(NUMBER_CHARS) | set(LOWER_PAIRS) | set(LOWER_PAIRS.values()) | set(PLAIN_CHARS))
+ALPHABET_SET = frozenset(ALPHABET)
+
+
+def o_isnum(c):
+    """unicode.IsNumber = general category N* (Nd, Nl, No)."""
+    return unicodedata.category(c).startswith("N")
+
+
+def o_lower_char(c):
+    """unicode.ToLower: the simple (one code point) lower case mapping."""
+    x = c.lower()
+    return x[0] if x else c
+
+
+def o_lower(s):
+    return "".join(o_lower_char(c) for c in s)
+
+
 def o_category(name):
-    return re.match(r"^[^0-9]*", name).group(0)
+    for i, c in enumerate(name):
+        if o_isnum(c):
+            return name[:i]
+    return name
 
 
 def o_names(body, name, known):
@@ -76,7 +144,7 @@ def o_names(body, name, known):
         pre = body[:-1]
         if name not in known:
             return False
-        if not any(c.isdigit() for c in pre):
+        if not any(o_isnum(c) for c in pre):
             return o_category(name) == pre          # S* names S1000, not SA1000
         return name.startswith(pre)
     return name == body
@@ -84,10 +152,10 @@ def o_names(body, name, known):
 
 def o_allowed(sel, name, known_lower):
     """last entry naming `name` decides; nothing names it => not allowed."""
-    name = name.lower()
+    name = o_lower(name)
     verdict = False
     for e in sel:
-        e = e.lower()
+        e = o_lower(e)
         on = True
         if len(e) > 1 and e[0] == "-":
             on, e = False, e[1:]
@@ -122,7 +190,7 @@ def o_exit(fmt, live, fail, known_lower):
     if fmt == "sarif":
         return 0
     for cat in live:
-        if cat.lower() in SPECIAL or o_allowed(fail, cat, known_lower):
+        if o_lower(cat) in SPECIAL or o_allowed(fail, cat, known_lower):
             return 1
     return 0
 
@@ -282,6 +350,387 @@ def parse_output(fmt, out, cwd):
     raise vlib.HarnessError("format " + fmt)
 
 
+
+# =========================================================================== structured parsers
+# Every format is also parsed into the *abstract rendering* of Verif/C11/Format.lean, written
+# exactly as c11driver writes it (showRendering): a list of item strings. Names are "x"+hex.
+
+def hx(s):
+    return "x" + s.encode().hex()
+
+
+def short_path(path, cwd):
+    """mirror of lintcmd.shortPath: relative to cwd if that is shorter (filepath.Rel fails for
+    relative or empty paths, which are then kept)."""
+    if path == "" or not cwd or not os.path.isabs(path):
+        return path
+    rel = os.path.relpath(path, cwd)
+    return rel if len(rel) < len(path) else path
+
+
+def split_pos(body):
+    """`<relativePositionString>: <message>` -> (canonical PosStr, message)"""
+    m = re.match(r"^(\d+):(\d+): (.*)$", body, re.S)
+    if m:
+        return "l:%d:%d" % (int(m.group(1)), int(m.group(2))), m.group(3)
+    m = re.match(r"^(.*?):(\d+):(\d+): (.*)$", body, re.S)
+    if m and "\n" not in m.group(1):
+        return "q:%s:%d:%d" % (hx(m.group(1)), int(m.group(2)), int(m.group(3))), m.group(4)
+    if body.startswith("-: "):
+        return "-", body[3:]
+    m = re.match(r"^(.*?): (.*)$", body, re.S)
+    if not m:
+        raise ValueError("text line without position: %r" % body)
+    return "f:" + hx(m.group(1)), m.group(2)
+
+
+def struct_text(out, has_build=False):
+    items = []
+    pending = None
+    for line in out.split("\n"):
+        if pending is None and line.startswith("\t"):
+            pos, msg = split_pos(line[1:])
+            items.append("R~%s~%s" % (pos, hx(msg)))
+            continue
+        if pending is None and line == "":
+            continue
+        pending = line if pending is None else pending + "\n" + line
+        if not TEXT_TAIL.search(line):
+            continue
+        rec, pending = pending, None
+        m = re.match(r"^(.*) \((\S+)\)$", rec, re.S)
+        pos, msg = split_pos(m.group(1))
+        build = ""
+        if has_build:
+            mb = re.match(r"^(.*) \[([^\]\s]+)\]$", msg, re.S)
+            if mb:
+                msg, build = mb.group(1), mb.group(2)
+        items.append("P~%s~%s~%s~%s" % (pos, hx(msg), hx(build), hx(m.group(2))))
+    if pending is not None:
+        raise ValueError("text output ends inside a problem: %r" % pending)
+    return items
+
+
+STYLISH_STATS = re.compile(r"^ ✖ (\d+) problems \((\d+) errors, (\d+) warnings, (\d+) ignored\)$")
+
+
+def struct_stylish(out):
+    """-> (items, stats or None); blank lines are kept only where a header follows."""
+    raw = []
+    stats = None
+    prev = "blank"
+    for line in out.split("\n"):
+        m = STYLISH_STATS.match(line)
+        if m:
+            stats = tuple(int(x) for x in m.groups())
+            prev = "stats"
+            continue
+        if line == "":
+            raw.append(["B"])
+            prev = "blank"
+            continue
+        m = re.match(r"^  \((\d+), (\d+)\)\s+(\S+)\s+(.*)$", line)
+        if m:
+            raw.append(["W", int(m.group(1)), int(m.group(2)), m.group(3), m.group(4)])
+            prev = "row"
+            continue
+        m = re.match(r"^    \((\d+), (\d+)\)\s+(.*)$", line)
+        if m:
+            raw.append(["L", int(m.group(1)), int(m.group(2)), m.group(3)])
+            prev = "row"
+            continue
+        if prev == "row":                  # continuation of a multi-line message
+            raw[-1][-1] += "\n" + line
+            continue
+        raw.append(["H", line])
+        prev = "header"
+    items = []
+    for i, r in enumerate(raw):
+        if r[0] == "B":
+            if i + 1 < len(raw) and raw[i + 1][0] == "H" and items:
+                items.append("B")
+        elif r[0] == "H":
+            items.append("H~" + hx(r[1]))
+        elif r[0] == "W":
+            items.append("W~%d~%d~%s~%s" % (r[1], r[2], hx(r[3]), hx(r[4])))
+        else:
+            items.append("L~%d~%d~%s" % (r[1], r[2], hx(r[3])))
+    return items, stats
+
+
+def struct_json(out):
+    items = []
+    objs = []
+    for line in out.split("\n"):
+        if not line.strip():
+            continue
+        j = json.loads(line)
+        objs.append(j)
+        loc, end = j["location"], j["end"]
+        rels = ";".join("%s:%d:%d:%s:%d:%d:%s" % (hx(r["location"]["file"]), r["location"]["line"], r["location"]["column"],
+                                                 hx(r["end"]["file"]), r["end"]["line"], r["end"]["column"], hx(r["message"]))
+                        for r in j.get("related") or [])
+        items.append("O~%s~%s~%s~%d~%d~%s~%d~%d~%s~%s" % (hx(j["code"]), hx(j.get("severity", "")), hx(loc["file"]), loc["line"], loc["column"],
+                                                          hx(end["file"]), end["line"], end["column"], hx(j["message"]), rels))
+    return items, objs
+
+
+def sarif_aloc(al):
+    uri = al.get("uri", "")
+    if uri.startswith("file://"):
+        path = urllib.parse.unquote(urllib.parse.urlparse(uri).path)
+    else:
+        path = urllib.parse.unquote(uri)
+    return path, 1 if al.get("uriBaseId") == "%SRCROOT%" else 0
+
+
+def sarif_region(reg):
+    return (reg.get("startLine", 0), reg.get("startColumn", 0), reg.get("endLine", 0), reg.get("endColumn", 0))
+
+
+def struct_sarif(out):
+    j = json.loads(out)
+    if len(j["runs"]) != 1:
+        raise ValueError("SARIF log with %d runs" % len(j["runs"]))
+    run = j["runs"][0]
+    rules = [r["id"] for r in run["tool"]["driver"].get("rules") or []]
+    items = ["U~" + ",".join(hx(r) for r in rules)]
+    for r in run.get("results") or []:
+        if len(r["locations"]) != 1:
+            raise ValueError("SARIF result with %d locations" % len(r["locations"]))
+        pl = r["locations"][0]["physicalLocation"]
+        path, base = sarif_aloc(pl.get("artifactLocation", {}))
+        reg = sarif_region(pl.get("region", {}))
+        rels = []
+        for rl in r.get("relatedLocations") or []:
+            rpl = rl["physicalLocation"]
+            rpath, rbase = sarif_aloc(rpl.get("artifactLocation", {}))
+            rels.append("%d:%s:%s:%d:%d:%d:%d:%d" % ((rl.get("id", 0), hx(rl["message"]["text"]), hx(rpath), rbase) + sarif_region(rpl.get("region", {}))))
+        if "suppressions" not in r or r["suppressions"] is None:
+            supp = "?"
+        elif not r["suppressions"]:
+            supp = "-"
+        else:
+            supp = ",".join(hx(x.get("kind", "")) for x in r["suppressions"])
+        items.append("X~%s~%s~%s~%d~%d~%d~%d~%d~%s~%s" % ((hx(r["ruleId"]), hx(r["message"]["text"]), hx(path), base) + reg + (supp, ";".join(rels))))
+    return items
+
+
+def struct_output(fmt, out, has_build=False):
+    """-> (items, stylish stats or None, json objects or None)"""
+    if fmt == "text":
+        return struct_text(out, has_build), None, None
+    if fmt == "stylish":
+        it, st = struct_stylish(out)
+        return it, st, None
+    if fmt == "json":
+        it, objs = struct_json(out)
+        return it, None, objs
+    if fmt == "sarif":
+        return struct_sarif(out), None, None
+    raise vlib.HarnessError("format " + fmt)
+
+
+def unhx(t):
+    return bytes.fromhex(t[1:]).decode()
+
+
+def flatten_items(fmt, items):
+    """order-insensitive view of a rendering: one string per problem (with what belongs to it)"""
+    out = []
+    if fmt == "text":
+        for it in items:
+            if it.startswith("R~") and out:
+                out[-1] += "|" + it
+            else:
+                out.append(it)
+    elif fmt == "stylish":
+        cur = ""
+        for it in items:
+            if it == "B":
+                continue
+            if it.startswith("H~"):
+                cur = it
+            elif it.startswith("L~") and out:
+                out[-1] += "|" + it
+            else:
+                out.append(cur + "|" + it)
+    else:
+        out = list(items)
+    return sorted(out)
+
+
+def compare_rendering(fmt, real_items, model_items):
+    if real_items == model_items:
+        return "equal", None
+    fr, fm = flatten_items(fmt, real_items), flatten_items(fmt, model_items)
+    if fr == fm:
+        return "order", None
+    only_r = [x for x in fr if x not in fm]
+    only_m = [x for x in fm if x not in fr]
+    return "differ", {"only_in_real_output": only_r[:4], "only_in_model_rendering": only_m[:4]}
+
+
+def describe_item(it):
+    """an item string with the hex names decoded (for replay files)"""
+    def dec(tok):
+        if re.fullmatch(r"x([0-9a-f]{2})*", tok):
+            try:
+                return repr(unhx(tok))
+            except (ValueError, UnicodeDecodeError):
+                return tok
+        return tok
+    return re.sub(r"x(?:[0-9a-f]{2})*", lambda m: dec(m.group(0)), it)
+
+
+def fields_by_problem(fmt, items, cwd):
+    """per problem key (short file, line, col, code, message): the fields this format shows"""
+    res = {}
+    if fmt == "text":
+        cur = None
+        for it in items:
+            f = it.split("~")
+            pos = f[1].split(":")
+            if pos[0] == "-":
+                loc = ("", 0, 0)
+            elif pos[0] == "f":
+                loc = (unhx(pos[1]), 0, 0)
+            elif pos[0] == "l":
+                loc = ("", int(pos[1]), int(pos[2]))
+            else:
+                loc = (unhx(pos[1]), int(pos[2]), int(pos[3]))
+            if f[0] == "P":
+                cur = (loc[0], loc[1], loc[2], unhx(f[4]), unhx(f[2]))
+                res[cur] = {"related": []}
+            elif cur is not None:
+                res[cur]["related"].append((loc[1], loc[2], unhx(f[2])))
+    elif fmt == "stylish":
+        cur, hdr = None, ""
+        for it in items:
+            f = it.split("~")
+            if f[0] == "H":
+                hdr = unhx(f[1])
+                hdr = "" if hdr == "-" else short_path(hdr, cwd)
+            elif f[0] == "W":
+                cur = (hdr, int(f[1]), int(f[2]), unhx(f[3]), unhx(f[4]))
+                res[cur] = {"related": []}
+            elif f[0] == "L" and cur is not None:
+                res[cur]["related"].append((int(f[1]), int(f[2]), unhx(f[3])))
+    elif fmt == "json":
+        for it in items:
+            f = it.split("~")
+            key = (short_path(unhx(f[3]), cwd), int(f[4]), int(f[5]), unhx(f[1]), unhx(f[9]))
+            rel = []
+            for r in [x for x in f[10].split(";") if x]:
+                g = r.split(":")
+                rel.append((int(g[1]), int(g[2]), unhx(g[6])))
+            res[key] = {"related": rel, "end": (int(f[7]), int(f[8])), "ignored": unhx(f[2]) == "ignored", "severity": unhx(f[2])}
+    elif fmt == "sarif":
+        for it in items[1:]:
+            f = it.split("~")
+            rel = []
+            suffix = ""
+            for r in [x for x in f[10].split(";") if x]:
+                g = r.split(":")
+                rel.append((int(g[4]), int(g[5]), unhx(g[1])))
+                suffix += "\n\t[%s](%s)" % (unhx(g[1]), g[0])
+            text = unhx(f[2])
+            msg = text[:len(text) - len(suffix)] if suffix and text.endswith(suffix) else text
+            key = (unhx(f[3]), int(f[5]), int(f[6]), unhx(f[1]), msg)
+            res[key] = {"related": rel, "end": (int(f[7]), int(f[8])), "ignored": f[9] == hx("inSource")}
+    return res
+
+
+def cross_format(struct, cwd, show_ignored):
+    """the formats clause evaluated field by field on the real outputs alone: the four
+    renderings of one run must describe the same problems with the same related information,
+    JSON and SARIF the same end positions and the same ignored/suppressed problems, and the
+    stylish summary must count what JSON shows. -> list of discrepancies (strings)"""
+    bad = []
+    per = {f: fields_by_problem(f, struct[f][0], cwd) for f in FORMATS if f in struct}
+    if "json" not in per:
+        return bad
+    hub = per["json"]
+    for f in ("text", "stylish", "sarif"):
+        if f not in per:
+            continue
+        if sorted(per[f]) != sorted(hub):
+            bad.append("%s and json show different problems: only %s %s, only json %s" % (
+                f, f, sorted(set(per[f]) - set(hub))[:3], sorted(set(hub) - set(per[f]))[:3]))
+            continue
+        for k, v in per[f].items():
+            if v["related"] != hub[k]["related"]:
+                bad.append("%s: related information of %s differs between %s %s and json %s" % (k[3], k[:3], f, v["related"], hub[k]["related"]))
+            if "end" in v and v["end"] != hub[k]["end"]:
+                bad.append("%s: end position of %s differs between %s %s and json %s" % (k[3], k[:3], f, v["end"], hub[k]["end"]))
+            if "ignored" in v and v["ignored"] != hub[k]["ignored"]:
+                bad.append("%s at %s: sarif suppressed=%s but json severity %s" % (k[3], k[:3], v["ignored"], hub[k]["severity"]))
+    if not show_ignored and any(v["ignored"] for v in hub.values()):
+        bad.append("an ignored problem is shown without -show-ignored")
+    if "stylish" in struct and struct["stylish"][1] is not None:
+        total, ne, nw, ni = struct["stylish"][1]
+        je = sum(1 for v in hub.values() if v["severity"] == "error")
+        jw = sum(1 for v in hub.values() if v["severity"] == "warning")
+        ji = sum(1 for v in hub.values() if v["severity"] == "ignored")
+        if (ne, nw) != (je, jw) or (show_ignored and ni != ji) or total < ne + nw + ni:
+            bad.append("stylish summary (%d problems, %d errors, %d warnings, %d ignored) but json shows %d errors, %d warnings, %d ignored"
+                       % (total, ne, nw, ni, je, jw, ji))
+    elif "stylish" in struct:
+        bad.append("stylish output without summary line")
+    return bad
+
+
+# --- model side: problems on the wire of the `fmt` op of c11driver
+
+def xprob(d):
+    rel = ";".join("%s:%d:%d:%s:%d:%d:%s" % (hx(r["file"]), r["line"], r["col"], hx(r["efile"]), r["eline"], r["ecol"], hx(r["msg"]))
+                   for r in d.get("related") or [])
+    return "/".join([hx(d["cat"]), "1" if d["ignored"] else "0", hx(d["file"]), str(d["line"]), str(d["col"]),
+                     hx(d["efile"]), str(d["eline"]), str(d["ecol"]), hx(d["msg"]), hx(d.get("build", "")), rel])
+
+
+def fmt_line(fmt, show_ignored, no_compile, analyzers, fail, cwd, probs):
+    files = set()
+    for d in probs:
+        files.add(d["file"])
+        for r in d.get("related") or []:
+            files.add(r["file"])
+    tbl = ",".join("%s=%s" % (hx(f), hx(short_path(f, cwd))) for f in sorted(files))
+    return "fmt %s %d %d %s %s S:%s P:%s" % (fmt, 1 if show_ignored else 0, 1 if no_compile else 0, xl(analyzers), xl(fail), tbl,
+                                             ",".join(xprob(d) for d in probs))
+
+
+def prob_of_json(j):
+    """a problem of the model from an object of the real -f json output"""
+    loc, end = j["location"], j["end"]
+    return {"cat": j["code"], "ignored": j.get("severity") == "ignored", "file": loc["file"], "line": loc["line"], "col": loc["column"],
+            "efile": end["file"], "eline": end["line"], "ecol": end["column"], "msg": j["message"], "build": "",
+            "related": [{"file": r["location"]["file"], "line": r["location"]["line"], "col": r["location"]["column"],
+                         "efile": r["end"]["file"], "eline": r["end"]["line"], "ecol": r["end"]["column"], "msg": r["message"]}
+                        for r in j.get("related") or []]}
+
+
+def parse_fmt_model(line):
+    """output of the `fmt` op -> (exit, (total, errors, warnings, ignored), items)"""
+    t = line.split(" ")
+    if len(t) != 6:
+        raise vlib.HarnessError("bad fmt output of the model: " + line[:200])
+    items = [] if t[5] == "-" else t[5].split("|")
+    return int(t[0]), (int(t[1]), int(t[2]), int(t[3]), int(t[4])), items
+
+
+def positions_wellformed(objs):
+    """hypothesis `Problem.wf` of formats_agree, probed on real JSON objects: a position
+    without line has no column; no file is called `-`."""
+    for j in objs:
+        ps = [j["location"]] + [r["location"] for r in j.get("related") or []]
+        for p in ps:
+            if p["line"] == 0 and p["column"] != 0:
+                return False
+        if j["location"]["file"] == "-":
+            return False
+    return True
+
 # =========================================================================== generators
 
 REAL_CATS_HINT = ["S", "SA", "ST", "U", "QF"]
@@ -298,7 +747,39 @@ def flip_case(rng, s):
     return s.swapcase()
 
 
-def gen_entry(rng, names, inherit_ok, hist):
+FOLD_CLASSES = {}
+for _c in ALPHABET:
+    FOLD_CLASSES.setdefault(o_lower_char(_c), []).append(_c)
+
+
+def alpha_flip(rng, s):
+    """change the case of some characters, staying inside the alphabet (all variants of a
+    character that have the same lower case: k K KELVIN SIGN, i I I-WITH-DOT, ...)"""
+    if rng.below(100) < 70:
+        return s
+    return "".join(rng.choice(FOLD_CLASSES[o_lower_char(c)]) if rng.chance(1, 2) else c for c in s)
+
+
+UNI_POOL = ["SA\u0663", "S\u00c91", "\u212a9", "\u0130X1", "Q\u00b2", "R\u2167x", "\u00e9t\u00e91", "S\uff15", "\u4e2d1", "SA1000", "S1000",
+            "s\u00e92", "IX1", "\u03a3\u03c31", "\u01c51", "\uff21\uff411", "S\u09ea0", "T\u30071", "\u1e9e1", "SA\u00bd", "K9", "\u03c21",
+            "\u0131x1", "\u00df1", "SA\u2177", "\u00c4\u00e4", "Q2", "S\u00b2"]
+
+
+def gen_uni_universe(rng):
+    n = 3 + rng.below(9)
+    names, seen = [], set()
+    for c in rng.shuffle(UNI_POOL):
+        if o_lower(c) in seen:
+            continue
+        seen.add(o_lower(c))
+        names.append(c)
+        if len(names) == n:
+            break
+    return names
+
+
+def gen_entry(rng, names, inherit_ok, hist, flip=None):
+    flip_fn = flip or flip_case
     cats = sorted({o_category(n) for n in names} | {"S", "SA"})
     r = rng.below(100)
     if r < 12:
@@ -311,7 +792,7 @@ def gen_entry(rng, names, inherit_ok, hist):
         body, kind = rng.choice(["T", "SB", "Q", "X", "SAA", "s", "all"]) + "*", "catglob-odd"
     elif r < 56:
         n = rng.choice(names)
-        ds = [i for i, c in enumerate(n) if c.isdigit()]
+        ds = [i for i, c in enumerate(n) if o_isnum(c)]
         if ds:
             cut = ds[0] + 1 + rng.below(len(n) - ds[0])
             body, kind = n[:cut] + "*", "prefixglob"
@@ -326,7 +807,7 @@ def gen_entry(rng, names, inherit_ok, hist):
     else:
         body, kind = ("inherit", "inherit") if inherit_ok else ("all", "all")
     if kind != "inherit" or rng.chance(1, 10):
-        body = flip_case(rng, body)
+        body = flip_fn(rng, body)
     neg = rng.chance(35, 100)
     if neg:
         body = "-" + body
@@ -334,9 +815,9 @@ def gen_entry(rng, names, inherit_ok, hist):
     return body
 
 
-def gen_list(rng, names, inherit_ok, hist, maxlen=6):
+def gen_list(rng, names, inherit_ok, hist, maxlen=6, flip=None):
     n = rng.choice([0, 1, 1, 2, 2, 3, 3, 4, 5, maxlen])
-    l = [gen_entry(rng, names, inherit_ok, hist) for _ in range(n)]
+    l = [gen_entry(rng, names, inherit_ok, hist, flip) for _ in range(n)]
     if inherit_ok and l and rng.chance(1, 3):
         l[0] = "inherit"
     if len(l) >= 2 and rng.chance(1, 6):      # adjacent duplicate (normalizeList)
@@ -407,9 +888,9 @@ class Collector:
         self.model.setdefault(cls, []).append(obj)
 
 
-def probe_lines(probe, mode, arg, cases, timeout=1800):
+def probe_lines(probe, mode, arg, cases, timeout=1800, extra=None):
     inp = "".join(json.dumps(c) + "\n" for c in cases)
-    cmd = [probe, mode] + ([arg] if arg else [])
+    cmd = [probe, mode] + ([arg] if arg else []) + (extra or [])
     rc, so, se = vlib.run(cmd, env=vlib.go_env(), input=inp, timeout=timeout)
     if rc != 0:
         raise vlib.HarnessError("c11probe %s failed (%d): %s" % (mode, rc, se[-2000:]))
@@ -423,6 +904,413 @@ def chunks(xs, n):
     k = max(1, (len(xs) + n - 1) // n)
     return [xs[i:i + k] for i in range(0, len(xs), k)]
 
+
+
+# =========================================================================== phase 0: the alphabet
+
+def phase_chars(ctx, probe, cov):
+    """hypothesis of the model (probed): on every character of the alphabet `isNumber` /
+    `toLowerChar` of Model.lean are unicode.IsNumber / unicode.ToLower of the Go library (and
+    of the oracle). A difference is a defect of the machinery or of its environment (a new
+    Unicode version), not of /repo."""
+    cps = [ord(c) for c in ALPHABET]
+    rc, so, se = vlib.run([probe, "chars"], env=vlib.go_env(), input=" ".join(str(c) for c in cps) + "\n", timeout=600)
+    if rc != 0:
+        raise vlib.HarnessError("c11probe chars failed: " + se[-1000:])
+    go = so.split()
+    lean = vlib.run_model(ctx, "C11", ["chars " + " ".join(str(c) for c in cps)])[0].split()
+    if len(go) != len(cps) or len(lean) != len(cps):
+        raise vlib.HarnessError("chars: %d/%d answers for %d characters" % (len(go), len(lean), len(cps)))
+    for c, g, l in zip(ALPHABET, go, lean):
+        o = "%d:%d" % (1 if o_isnum(c) else 0, ord(o_lower_char(c)))
+        if not (g == l == o):
+            raise vlib.HarnessError("U+%04X: Go library says %s, Lean tables say %s, oracle says %s (isNumber:lower)" % (ord(c), g, l, o))
+    cov["chars"] = {"alphabet": len(cps), "non_ascii": len([c for c in cps if c > 127]),
+                    "numbers": len([c for c in ALPHABET if o_isnum(c)]), "with_lower_case": len([c for c in ALPHABET if o_lower_char(c) != c])}
+    return len(cps)
+
+
+def in_alphabet(*lists):
+    for l in lists:
+        for s in l or []:
+            if not set(s) <= ALPHABET_SET:
+                return False
+    return True
+
+
+# =========================================================================== phase S: the real filterAnalyzerNames
+
+def entry_bodies(sel):
+    out = set()
+    for e in sel:
+        e = o_lower(e)
+        if len(e) > 1 and e[0] == "-":
+            e = e[1:]
+        out.add(e)
+    return out
+
+
+def o_true_set(all_names, sel):
+    known = frozenset(o_lower(n) for n in all_names)
+    return sorted(k for k in known | entry_bodies(sel) if o_allowed(sel, k, known))
+
+
+def phase_sel(ctx, probe, real_names, default_checks, col, cov, replay_cases=None):
+    """the real lintcmd.filterAnalyzerNames (with the real makeCaseFoldedStrings), called
+    in-process through go:linkname, on every generated list: the set of keys it maps to true
+    against `selmap` of the model and against the oracle."""
+    rng = vlib.SplitMix(ctx.seed).fork("C11/sel")
+    hist = {}
+    if replay_cases is not None:
+        cases = replay_cases
+    else:
+        cases = [
+            {"all": ["S1000", "SA1000", "ST1000"], "sel": ["S*"]},
+            {"all": ["S1000", "SA1000", "ST1000"], "sel": ["all", "-S*"]},
+            {"all": ["S1000", "SA1000", "SA1001", "SA2000"], "sel": ["SA1*", "-sa1000", "SA1000"]},
+            {"all": real_names, "sel": list(default_checks)},
+            {"all": real_names, "sel": ["inherit", "-ST*", "st1000", "*", "-*"]},
+            {"all": ["SA٣", "SÉ1", "K9", "İX1"], "sel": ["sa*", "sé*", "K*", "ix1"]},
+            {"all": ["Q²", "RⅧx", "S½"], "sel": ["q*", "r*", "-s*", "Rⅷ*"]},
+            {"all": ["S1000"], "sel": ["-", "", "--", "-*", "S1000"]},
+        ]
+        n = 12000 if ctx.quick else 150000
+        for _ in range(n):
+            r = rng.below(100)
+            flip = None
+            if r < 10:
+                names, kind = real_names, "real"
+            elif r < 60:
+                names, kind = gen_universe(rng), "fake-ascii"
+            else:
+                names, kind = gen_uni_universe(rng), "non-ascii"
+                flip = alpha_flip
+            hist["universe-" + kind] = hist.get("universe-" + kind, 0) + 1
+            cases.append({"all": names, "sel": gen_list(rng, names, False, hist, maxlen=8, flip=flip)})
+        for i, c in enumerate(cases):
+            c["id"] = i
+    for c in cases:
+        if not in_alphabet(c["all"], c["sel"]):
+            raise vlib.HarnessError("generated a name outside the alphabet: %r" % c)
+    parts = chunks(cases, min(8, vlib.NCPU))
+    with ThreadPoolExecutor(max_workers=len(parts)) as ex:
+        results = [r for part in ex.map(lambda p: probe_lines(probe, "sel", None, p), parts) for r in part]
+    lines = ["selmap %s %s" % (xl(c["all"]), xl(c["sel"])) for c in cases]
+    model = vlib.run_model(ctx, "C11", lines)
+    nontrivial = set()
+    nonascii_cases = 0
+    for c, r, m, line in zip(cases, results, model, lines):
+        if m == "bad-op":
+            raise vlib.HarnessError("model rejected: " + line[:300])
+        mtrue = sorted(un_xc(m))
+        impl = sorted(r["true"])
+        spec = o_true_set(c["all"], c["sel"])
+        ascii_case = all(ord(ch) < 128 for s in c["all"] + c["sel"] for ch in s)
+        nonascii_cases += 0 if ascii_case else 1
+        if mtrue != spec:
+            col.internal.append({"phase": "sel", "case": c, "model_true": mtrue, "oracle_true": spec})
+        if impl != spec:
+            rec = {"phase": "sel", "case": {"all": c["all"], "sel": c["sel"]}, "impl_true": impl, "documented_true": spec,
+                   "selected_differently": sorted(set(impl) ^ set(spec))[:20],
+                   "what": "filterAnalyzerNames(%r) over %d analyzers selects %s differently from the documented algebra"
+                           % (c["sel"], len(c["all"]), sorted(set(impl) ^ set(spec))[:8])}
+            if ascii_case:
+                col.oracle_fail("sel-selection", rec)
+            else:
+                col.model_diff("sel-nonascii", rec)
+        known = frozenset(o_lower(n) for n in c["all"])
+        t = sum(1 for k in known if k in spec)
+        if 0 < t < len(known) and len(c["sel"]) >= 2:
+            nontrivial.add(line)
+    cov["sel"] = {"cases": len(cases), "nontrivial": len(nontrivial), "non_ascii_cases": nonascii_cases, "histogram": hist,
+                  "sample": [{"input": {"all": cases[i]["all"][:12], "sel": cases[i]["sel"]}, "impl_true": results[i]["true"][:12]} for i in (1, 5, len(cases) - 1)]}
+    return len(cases), len(nontrivial)
+
+
+# =========================================================================== phase T: directory trees and packages
+
+COMPONENTS = ["mod", "a", "b", "c", "int", "x"]
+
+
+def gen_tree_case(rng, real_names, default_checks, hist):
+    dirs = {()}
+    for _ in range(1 + rng.below(3)):
+        pth = [rng.choice(COMPONENTS) for _ in range(1 + rng.below(4))]
+        for i in range(1, len(pth) + 1):
+            dirs.add(tuple(pth[:i]))
+    dirs = sorted(dirs)
+    real = rng.chance(3, 10)
+    names = real_names if real else gen_universe(rng)
+    confs = []
+    for d in dirs:
+        r = rng.below(100)
+        if r < 42:
+            continue
+        if r < 49:
+            lv = {"kind": "empty"}
+        elif r < 56:
+            lv = {"kind": "other"}
+        elif r < 59:
+            lv = {"kind": "dir"}
+        else:
+            lv = {"kind": "set", "checks": gen_list(rng, names, True, hist)}
+        hist["level-" + lv["kind"]] = hist.get("level-" + lv["kind"], 0) + 1
+        confs.append(dict(lv, dir=list(d)))
+    pkgs = []
+    for _ in range(1 + rng.below(4)):
+        d = list(rng.choice(dirs))
+        if rng.chance(1, 5):
+            d = d + [rng.choice(["leaf", "sub"])]            # a directory without configuration of its own
+        files = []
+        if rng.chance(3, 10):
+            files += [{"dir": [], "cache": True} for _ in range(1 + rng.below(2))]
+        if rng.chance(8, 100):
+            files = files or [{"dir": [], "cache": True}]
+            shape = "only-cached"
+        else:
+            files += [{"dir": d, "cache": False} for _ in range(1 + rng.below(3))]
+            shape = "plain" if len(files) == sum(1 for f in files if not f["cache"]) else "cached-first"
+            if rng.chance(15, 100):
+                files.append({"dir": list(rng.choice(dirs)), "cache": False})
+                shape = "several-dirs"
+            if rng.chance(1, 5):
+                files.append({"dir": [], "cache": True})
+        hist["pkg-" + shape] = hist.get("pkg-" + shape, 0) + 1
+        pkgs.append({"files": files})
+    r = rng.below(100)
+    if r < 60:
+        dflt = list(default_checks) if real else ["all"] + ["-" + n for n in names[:2]]
+    elif r < 85:
+        dflt = gen_list(rng, names, False, hist)
+    elif r < 95:
+        dflt = None
+    else:
+        dflt = ["all"]
+    r = rng.below(100)
+    if r < 30:
+        cmd = ["inherit"]
+    elif r < 40:
+        cmd = None
+    else:
+        cmd = gen_list(rng, names, True, hist)
+    return {"all": names, "dflt": dflt, "cmd": cmd, "confs": confs, "pkgs": pkgs}
+
+
+def xdir(d):
+    return "D:" + ",".join(xn(c) for c in d)
+
+
+def o_config_dir(files):
+    for f in files:
+        if not f["cache"]:
+            return f["dir"]
+    return None
+
+
+def o_tree_effective(case, files):
+    """documented: the files from the outermost directory down to the package directory, then -checks"""
+    d = o_config_dir(files)
+    cur = case["dflt"]
+    if d is not None:
+        conf = {tuple(c["dir"]): c for c in case["confs"]}
+        for i in range(0, len(d) + 1):
+            c = conf.get(tuple(d[:i]))
+            if c is not None and c["kind"] == "set":
+                cur = o_splice(cur or [], c["checks"])
+    if case["cmd"] is not None:
+        cur = o_splice(cur or [], case["cmd"])
+    return cur
+
+
+def phase_tree(ctx, probe, real_names, default_checks, col, cov, replay_cases=None):
+    """per-package configuration lookup on generated directory trees: the real config.Analyzer
+    (dirAST, Dir, Load) + Config.Merge + filterAnalyzerNames per package, against `pkg` of the
+    model (packageEffective / packageAllowed) and the documented top-down fold."""
+    rng = vlib.SplitMix(ctx.seed).fork("C11/tree")
+    hist = {}
+    if replay_cases is not None:
+        cases = replay_cases
+    else:
+        cases = [
+            {"all": ["S1000", "SA1000"], "dflt": ["all"], "cmd": ["inherit"],
+             "confs": [{"dir": ["mod"], "kind": "set", "checks": ["SA*"]}, {"dir": ["mod", "a"], "kind": "set", "checks": ["inherit", "-SA1000", "S1000"]},
+                       {"dir": ["mod", "b"], "kind": "set", "checks": []}],
+             "pkgs": [{"files": [{"dir": [], "cache": True}, {"dir": ["mod", "a"], "cache": False}]}, {"files": [{"dir": ["mod", "b"], "cache": False}]},
+                      {"files": [{"dir": ["mod", "c", "leaf"], "cache": False}]}, {"files": [{"dir": [], "cache": True}]},
+                      {"files": [{"dir": ["mod", "a"], "cache": False}, {"dir": ["mod", "b"], "cache": False}]}]},
+        ]
+        n = 1200 if ctx.quick else 15000
+        for _ in range(n):
+            cases.append(gen_tree_case(rng, real_names, default_checks, hist))
+        for i, c in enumerate(cases):
+            c["id"] = i
+    base = os.path.dirname(ctx.path("tree", "x"))
+    no_conf_above(base)
+    parts = chunks(cases, min(8, vlib.NCPU))
+
+    def runpart(arg):
+        k, part = arg
+        return probe_lines(probe, "tree", os.path.join(base, "w%d" % k), part)
+
+    with ThreadPoolExecutor(max_workers=len(parts)) as ex:
+        results = [r for part in ex.map(runpart, list(enumerate(parts))) for r in part]
+    lines, owner = [], []
+    for ci, c in enumerate(cases):
+        confs = " ".join("%s %s" % (xdir(cf["dir"]), xlevel(cf)) for cf in c["confs"])
+        for pi, p in enumerate(c["pkgs"]):
+            files = " ".join("%s %d" % (xdir(f["dir"]), 1 if f["cache"] else 0) for f in p["files"])
+            lines.append(("pkg %s %s %s %d %s %d %s" % (xl(c["all"]), xc(c["dflt"]), xc(c["cmd"]), len(c["confs"]), confs, len(p["files"]), files)).replace("  ", " ").rstrip())
+            owner.append((ci, pi))
+    model = vlib.run_model(ctx, "C11", lines)
+    nontrivial = set()
+    list_mismatch = 0
+    npk = 0
+    for (ci, pi), m, line in zip(owner, model, lines):
+        c, r = cases[ci], results[ci]["pkgs"][pi]
+        files = c["pkgs"][pi]["files"]
+        if m == "bad-op":
+            raise vlib.HarnessError("model rejected: " + line[:300])
+        npk += 1
+        meff, mbits = m.split(" ")
+        meff = un_xc(meff)
+        err = r.get("err", "")
+        rec = {"phase": "tree", "case": c, "package": pi, "files": files, "impl": r}
+        if err:
+            col.oracle_fail("tree-error", dict(rec, what="config.Analyzer failed on a generated tree: " + err))
+            continue
+        odir = o_config_dir(files)
+        if (r["dir"] or None) != (None if odir is None else ("/".join(odir) or ".")):
+            col.oracle_fail("tree-config-dir", dict(rec, documented_dir=odir,
+                            what="config.Dir chose %r for a package whose first file outside the build cache is in %r" % (r["dir"], odir)))
+            continue
+        spec = o_tree_effective(c, files)
+        known = frozenset(o_lower(n) for n in c["all"])
+        sel_impl = [n for n in c["all"] if o_lower(n) in set(r["sel"])]
+        sel_spec = [n for n in c["all"] if o_allowed(spec or [], n, known)]
+        sel_model = [n for n, b in zip(c["all"], mbits[1:]) if b == "1"]
+        if sel_model != sel_spec:
+            col.internal.append({"phase": "tree", "case": c, "package": pi, "model_selected": sel_model, "oracle_selected": sel_spec})
+        if sel_impl != sel_spec:
+            col.oracle_fail("tree-selection", dict(rec, documented_effective_checks=spec, checks_selected_differently=sorted(set(sel_impl) ^ set(sel_spec))[:20],
+                            what="package %d (config directory %r): effective list %r selects %s differently from the files applied outermost-first + -checks (%r)"
+                                 % (pi, r["dir"], r["eff"], sorted(set(sel_impl) ^ set(sel_spec))[:6], spec)))
+        if r["eff"] != meff:
+            list_mismatch += 1
+        d = odir or []
+        chain = [cf for cf in c["confs"] if cf["kind"] == "set" and cf["dir"] == d[:len(cf["dir"])]]
+        others = [cf for cf in c["confs"] if cf["kind"] == "set" and cf["dir"] != d[:len(cf["dir"])]]
+        if odir is not None and ((len(chain) >= 2) or (chain and others)):
+            nontrivial.add(line)
+    cov["tree"] = {"cases": len(cases), "packages": npk, "nontrivial": len(nontrivial), "exact_list_differences_not_affecting_selection": list_mismatch,
+                   "histogram": hist, "sample": [{"input": {k: v for k, v in cases[0].items() if k != "all"}, "impl": results[0]}]}
+    return npk, len(nontrivial)
+
+
+# =========================================================================== phase P: success + filterIgnored of one package
+
+def o_lint_package(c):
+    """documented: problems of allowed checks; ignored iff a directive names the check at that
+    line / in that file; a directive without reason is a `compile` problem; a line directive that
+    matched nothing is a `staticcheck` problem only if it names an allowed check (not U1000)."""
+    known = frozenset(o_lower(n) for n in c["all"])
+
+    def allowed(name):
+        return o_allowed(c["sel"], name, known)
+    kept = [d for d in c["diags"] if allowed(d["cat"])]
+
+    def matches(g, d):
+        if g["kind"] == "l":
+            return d["file"] == g["file"] and d["line"] == g["line"] and o_lower(d["cat"]) in [o_lower(x) for x in g["checks"]]
+        if g["kind"] == "f":
+            return d["file"] == g["file"] and o_lower(d["cat"]) in [o_lower(x) for x in g["checks"]]
+        return False
+    out = [(d["cat"], any(matches(g, d) for g in c["dirs"]), d["file"], d["line"], d["col"]) for d in kept]
+    out += [("compile", False, g["file"], g["line"], g["col"]) for g in c["dirs"] if g["kind"] == "m"]
+    for g in c["dirs"]:
+        if g["kind"] == "l" and not any(matches(g, d) for d in kept) and any(o_lower(x) != "u1000" and allowed(x) for x in g["checks"]):
+            out.append(("staticcheck", False, g["dfile"], g["dline"], g["dcol"]))
+    return sorted(out)
+
+
+def phase_lintpkg(ctx, probe, col, cov, replay_cases=None):
+    """the per-package part of linter.lint: the real filterAnalyzerNames -> the real success +
+    filterIgnored (exported wrapper of C10) against lintPackageP of the model: the directive
+    problems depend on the selection."""
+    rng = vlib.SplitMix(ctx.seed).fork("C11/lintpkg")
+    hist = {}
+    if replay_cases is not None:
+        cases = replay_cases
+    else:
+        cases = []
+        n = 3000 if ctx.quick else 40000
+        for _ in range(n):
+            names = gen_universe(rng)
+            if rng.chance(1, 2) and "U1000" not in names:
+                names = names + ["U1000"]
+            sel = gen_list(rng, names, False, hist, maxlen=5)
+            diags = []
+            for i in range(rng.below(7)):
+                diags.append({"file": "/src/f%d.go" % rng.below(2), "line": 2 + 2 * rng.below(4), "col": 1 + i, "cat": flip_case(rng, rng.choice(names)),
+                              "msg": "problem %d" % i, "sev": 0})
+            dirs = []
+            for i in range(rng.below(5)):
+                r = rng.below(100)
+                kind = "l" if r < 60 else "f" if r < 75 else "m" if r < 90 else "u"
+                checks = [flip_case(rng, rng.choice(names + ["U1000", "ZZ9"])) for _ in range(1 + rng.below(2))]
+                if diags and rng.chance(6, 10):
+                    d = rng.choice(diags)
+                    if rng.chance(2, 3):
+                        checks[0] = flip_case(rng, d["cat"])
+                    f, ln = d["file"], d["line"]
+                else:
+                    f, ln = "/src/f%d.go" % rng.below(2), 2 + 2 * rng.below(4)
+                dirs.append({"kind": kind, "checks": checks, "file": f, "line": ln, "col": 1, "dfile": f, "dline": ln - 1, "dcol": 2 + i})
+                hist["directive-" + kind] = hist.get("directive-" + kind, 0) + 1
+            cases.append({"all": names, "sel": sel, "diags": diags, "dirs": dirs})
+        for i, c in enumerate(cases):
+            c["id"] = i
+    parts = chunks(cases, min(8, vlib.NCPU))
+    with ThreadPoolExecutor(max_workers=len(parts)) as ex:
+        results = [r for part in ex.map(lambda p: probe_lines(probe, "lintpkg", None, p), parts) for r in part]
+    lines = []
+    for c in cases:
+        probs = [{"cat": d["cat"], "ignored": False, "file": d["file"], "line": d["line"], "col": d["col"], "efile": d["file"], "eline": d["line"],
+                  "ecol": d["col"], "msg": d["msg"]} for d in c["diags"]]
+        dirs = ",".join("%s/%s/%s/%d/%d/%s/%d/%d" % (g["kind"], ";".join(xn(x) for x in g["checks"]), xn(g["file"]), g["line"], g["col"],
+                                                   xn(g["dfile"]), g["dline"], g["dcol"]) for g in c["dirs"])
+        lines.append("lintpkg %s %s P:%s G:%s P:" % (xl(c["all"]), xl(c["sel"]), ",".join(xprob(d) for d in probs), dirs))
+    model = vlib.run_model(ctx, "C11", lines)
+    nontrivial = set()
+    for c, r, m, line in zip(cases, results, model, lines):
+        if m == "bad-op":
+            raise vlib.HarnessError("model rejected: " + line[:300])
+        if r.get("err"):
+            raise vlib.HarnessError("filterIgnored failed: " + r["err"])
+        impl = sorted((d["cat"], d["ignored"], d["file"], d["line"], d["col"]) for d in r["out"])
+        mod = []
+        if m != "-":
+            for it in m.split(","):
+                f = it.split("/")
+                mod.append((unhx(f[0]), f[1] == "1", unhx(f[2]), int(f[3]), int(f[4])))
+        mod = sorted(mod)
+        spec = o_lint_package(c)
+        if mod != spec:
+            col.internal.append({"phase": "lintpkg", "case": c, "model": mod, "oracle": spec})
+        if impl != spec:
+            missing = sorted(set(spec) - set(impl))
+            extra = sorted(set(impl) - set(spec))
+            col.oracle_fail("lintpkg-reported", {"phase": "lintpkg", "case": {k: v for k, v in c.items() if k != "id"}, "impl_reported": impl,
+                            "documented_reported": spec, "missing": missing, "unexpected": extra,
+                            "what": "success + filterIgnored with the list %r report %s in addition to / %s instead of all problems restricted to the selection (+ directive problems of selected checks)"
+                                    % (c["sel"], [(t[0], t[3]) for t in extra][:5], [(t[0], t[3]) for t in missing][:5])})
+        known = frozenset(o_lower(n) for n in c["all"])
+        lines_dirs = [g for g in c["dirs"] if g["kind"] == "l"]
+        silent = [g for g in lines_dirs if not any(o_lower(x) != "u1000" and o_allowed(c["sel"], x, known) for x in g["checks"])]
+        if any(t[0] == "staticcheck" for t in spec) or (silent and len(silent) < len(lines_dirs)):
+            nontrivial.add(line)
+    cov["lintpkg"] = {"cases": len(cases), "nontrivial": len(nontrivial), "histogram": hist,
+                      "sample": [{"input": {k: v for k, v in cases[i].items() if k != "id"}, "impl": results[i]["out"]} for i in (0, len(cases) - 1)][:2]}
+    return len(cases), len(nontrivial)
 
 # =========================================================================== phase A: config.Load
 
@@ -442,7 +1330,7 @@ def phase_load(ctx, probe, real_names, default_checks, col, cov, replay_cases=No
             {"dflt": None, "cmd": ["inherit", "S1000"], "levels": [{"kind": "empty"}]},
             {"dflt": ["all", "inherit"], "cmd": None, "levels": [{"kind": "absent"}]},
         ]
-        n = 1500 if ctx.quick else 20000
+        n = 600 if ctx.quick else 20000
         for c in fixed:
             cases.append(dict(c))
         for _ in range(n):
@@ -518,26 +1406,56 @@ def phase_load(ctx, probe, real_names, default_checks, col, cov, replay_cases=No
 
 # =========================================================================== phase B: in-process -merge
 
-def gen_merge_cases(ctx, work):
+def gen_merge_cases(ctx, cwd):
+    """problems carry end positions, related information and (some cases) build names; files lie
+    in the working directory (printed relative), in a sub directory, next to it (`../`), far away
+    (absolute path stays shorter) or are missing (problem without position)."""
     rng = vlib.SplitMix(ctx.seed).fork("C11/merge")
     hist = {}
     cases = []
     n = 1500 if ctx.quick else 25000
+    parent = os.path.dirname(cwd)
+    files = [os.path.join(cwd, "f0.go"), os.path.join(cwd, "sub", "f0.go"), os.path.join(parent, "f2.go"), "/zz9.go"]
 
-    def diag(i, cat, sev, nopos=False):
+    def diag(i, cat, sev, nopos=False, rich=True, build=""):
         if nopos:
-            return {"file": "", "line": 0, "col": 0, "cat": cat, "msg": "problem %d without position" % i, "sev": sev}
-        return {"file": os.path.join(work, "f%d.go" % (i % 3)), "line": i + 1, "col": 1 + rng.below(9), "cat": cat,
-                "msg": "problem %d %s" % (i, rng.choice(WORDS)), "sev": sev}
+            return {"file": "", "line": 0, "col": 0, "cat": cat, "msg": "problem %d without position" % i, "sev": sev, "build": build}
+        d = {"file": files[i % 3] if not rich else rng.choice(files), "line": i + 1, "col": 1 + rng.below(9), "cat": cat,
+             "msg": "problem %d %s" % (i, rng.choice(WORDS)), "sev": sev, "build": build}
+        if rich and rng.chance(7, 10):
+            d["has_end"] = True
+            d["eline"] = d["line"] + (rng.below(3) if rng.chance(1, 4) else 0)
+            d["ecol"] = d["col"] + 1 + rng.below(20)
+        if rich and rng.chance(1, 5):
+            d["related"] = []
+            for k in range(1 + rng.below(2)):
+                ln, cl = 1 + rng.below(30), 1 + rng.below(9)
+                d["related"].append({"file": rng.choice([d["file"], rng.choice(files)]), "line": ln, "col": cl, "eline": ln, "ecol": cl + 1 + rng.below(8),
+                                     "msg": "related %d %s" % (k, rng.choice(WORDS))})
+        return d
 
+    f0 = files[0]
     fixed = [
-        {"analyzers": ["S1002", "SA4000"], "fail": None, "show_ignored": True, "diags": [diag(0, "S1002", 2)]},
-        {"analyzers": ["S1002", "SA4000"], "fail": "", "show_ignored": True, "diags": [diag(0, "S1002", 2)]},
-        {"analyzers": ["S1002", "SA4000"], "fail": "S*", "show_ignored": True, "diags": [diag(0, "S1002", 2), diag(1, "SA4000", 0)]},
-        {"analyzers": ["S1002", "SA4000"], "fail": "S*", "show_ignored": False, "diags": [diag(0, "S1002", 2), diag(1, "SA4000", 0)]},
-        {"analyzers": ["S1000", "SA1000"], "fail": "S*", "show_ignored": False, "diags": [diag(0, "SA1000", 0)]},
+        {"analyzers": ["S1002", "SA4000"], "fail": None, "show_ignored": True, "diags": [diag(0, "S1002", 2, rich=False)]},
+        {"analyzers": ["S1002", "SA4000"], "fail": "", "show_ignored": True, "diags": [diag(0, "S1002", 2, rich=False)]},
+        {"analyzers": ["S1002", "SA4000"], "fail": "S*", "show_ignored": True, "diags": [diag(0, "S1002", 2, rich=False), diag(1, "SA4000", 0, rich=False)]},
+        {"analyzers": ["S1002", "SA4000"], "fail": "S*", "show_ignored": False, "diags": [diag(0, "S1002", 2, rich=False), diag(1, "SA4000", 0, rich=False)]},
+        {"analyzers": ["S1000", "SA1000"], "fail": "S*", "show_ignored": False, "diags": [diag(0, "SA1000", 0, rich=False)]},
         {"analyzers": ["S1000", "SA1000"], "fail": "-all", "show_ignored": False, "diags": [diag(0, "compile", 0, True)]},
-        {"analyzers": ["S1000", "SA1000"], "fail": "all,-SA1*,sa1000", "show_ignored": False, "diags": [diag(0, "SA1000", 0), diag(1, "S1000", 2)]},
+        {"analyzers": ["S1000", "SA1000"], "fail": "all,-SA1*,sa1000", "show_ignored": False, "diags": [diag(0, "SA1000", 0, rich=False), diag(1, "S1000", 2, rich=False)]},
+        # end positions, related information in another file, an ignored problem with related information
+        {"analyzers": ["SA4009", "S1002"], "fail": "SA*", "show_ignored": True, "diags": [
+            {"file": f0, "line": 3, "col": 8, "has_end": True, "eline": 3, "ecol": 9, "cat": "SA4009", "msg": "argument x is overwritten before first use", "sev": 0,
+             "related": [{"file": f0, "line": 4, "col": 2, "eline": 4, "ecol": 7, "msg": "assignment to x"}, {"file": files[2], "line": 9, "col": 1, "eline": 10, "ecol": 2, "msg": "and here"}]},
+            {"file": f0, "line": 7, "col": 5, "has_end": True, "eline": 8, "ecol": 1, "cat": "S1002", "msg": "should omit comparison", "sev": 2,
+             "related": [{"file": files[1], "line": 1, "col": 1, "eline": 1, "ecol": 4, "msg": "see [this] (too)"}]}]},
+        # -debug.no-compile-errors: the compile error is neither shown nor counted, the config error still fails the run
+        {"analyzers": ["S1002"], "fail": "", "show_ignored": False, "no_compile": True, "diags": [diag(0, "compile", 0, True), diag(1, "S1002", 0, rich=False)]},
+        {"analyzers": ["S1002"], "fail": "", "show_ignored": False, "no_compile": True, "diags": [diag(0, "compile", 0, rich=False), diag(1, "config", 0, rich=False)]},
+        {"analyzers": ["S1002"], "fail": "all", "show_ignored": True, "no_compile": True, "diags": [diag(0, "compile", 2, rich=False), diag(1, "Compile", 0, rich=False)]},
+        # build names
+        {"analyzers": ["S1002", "SA4000"], "fail": "S1*", "show_ignored": False, "builds": True,
+         "diags": [diag(0, "S1002", 0, rich=False, build="linux"), diag(1, "SA4000", 0, rich=False, build="linux,windows"), diag(2, "SA4000", 0, rich=False)]},
     ]
     for c in fixed:
         cases.append(c)
@@ -551,37 +1469,52 @@ def gen_merge_cases(ctx, work):
         else:
             fail = cmdline_value(gen_list(rng, names, False, hist))
         show = rng.chance(2, 5)
+        builds = rng.chance(1, 10)
+        no_compile = rng.chance(15, 100)
+
+        def bn():
+            return rng.choice(["", "linux", "darwin", "linux,windows"]) if builds else ""
         diags = []
         if rng.chance(1, 2):
             # map probe: one live problem per analyzer -> the whole -fail map is observable
             for i, nm in enumerate(names):
-                diags.append(diag(i, nm, 0))
+                diags.append(diag(i, nm, 0, build=bn()))
             hist["shape-map-probe"] = hist.get("shape-map-probe", 0) + 1
         else:
             k = rng.below(8)
             nopos_used = False
             for i in range(k):
                 r = rng.below(100)
-                if r < 70:
+                if r < 66:
                     cat = flip_case(rng, rng.choice(names))
                 elif r < 84:
-                    cat = rng.choice(list(SPECIAL) + ["Compile"])
+                    cat = rng.choice(list(SPECIAL) + ["Compile", "compile"])
                 else:
                     cat = rng.choice(["ZZ9", "foo", "S9999"])
                 sev = 2 if rng.chance(3, 10) else 0
                 nopos = (not nopos_used) and rng.chance(1, 20)
                 nopos_used = nopos_used or nopos
-                diags.append(diag(i, cat, sev, nopos))
+                diags.append(diag(i, cat, sev, nopos, build=bn()))
             hist["shape-random"] = hist.get("shape-random", 0) + 1
-        cases.append({"analyzers": names, "fail": fail, "show_ignored": show, "diags": diags})
+        c = {"analyzers": names, "fail": fail, "show_ignored": show, "diags": diags}
+        if builds:
+            c["builds"] = True
+        if no_compile:
+            c["no_compile"] = True
+            hist["no-compile-errors"] = hist.get("no-compile-errors", 0) + 1
+        cases.append(c)
     return cases, hist
+
+
+def hidden(case, d):
+    return bool(case.get("no_compile")) and d["cat"] == "compile"
 
 
 def merge_expected(case, known_lower):
     """oracle for one -merge case: shown problems and, per format, the exit status (None if
     the documented algebra does not say, i.e. a live problem has an unknown category)."""
-    shown = [d for d in case["diags"] if d["sev"] != 2 or case["show_ignored"]]
-    live = [d["cat"] for d in case["diags"] if d["sev"] != 2]
+    shown = [d for d in case["diags"] if (d["sev"] != 2 or case["show_ignored"]) and not hidden(case, d)]
+    live = [d["cat"] for d in case["diags"] if d["sev"] != 2 and not hidden(case, d)]
     decidable = all(c.lower() in known_lower or c.lower() in SPECIAL for c in live)
     fail = flag_list(case["fail"])
     if fail is None:
@@ -594,12 +1527,54 @@ def diag_tuple(d):
     return (d["file"], d["line"], d["col"], d["cat"], d["msg"])
 
 
+def prob_of_spec(d):
+    """a crafted diagnostic (what c11probe gob-encodes) as a problem of the model"""
+    he = d.get("has_end")
+    return {"cat": d["cat"], "ignored": d["sev"] == 2, "file": d["file"], "line": d["line"], "col": d["col"], "efile": d["file"],
+            "eline": d["eline"] if he else d["line"], "ecol": d["ecol"] if he else d["col"], "msg": d["msg"], "build": d.get("build", ""),
+            "related": [dict(r, efile=r["file"]) for r in d.get("related") or []]}
+
+
+def field_checks(col, phase, rec, struct, cwd, show_ignored, model_by_fmt, all_oracles_ok, stats_full=True):
+    """(b) the formats clause field by field on the real outputs alone, (c) every real rendering
+    against the rendering of the model. `struct`: fmt -> (items, stylish stats, json objects);
+    `model_by_fmt`: fmt -> (exit, stats, items) of the `fmt` op. Returns the number of renderings
+    that differ from the model only in the order of the problems."""
+    order_only = 0
+    bad = cross_format(struct, cwd, show_ignored)
+    if bad:
+        col.oracle_fail(phase + "-formats-fields", dict(rec, discrepancies=bad[:8],
+                        what="text, stylish, JSON and SARIF do not render the same problems field by field: " + bad[0]))
+        return order_only
+    if "json" in struct and not positions_wellformed(struct["json"][2]):
+        col.model_diff(phase + "-hypothesis-wf", dict(rec, what="a printed position has a column but no line, or a file is called `-` (hypothesis Problem.wf of formats_agree)"))
+    for f, (items, st, _objs) in struct.items():
+        if f not in model_by_fmt:
+            continue
+        mexit, mstats, mitems = model_by_fmt[f]
+        verdict, diff = compare_rendering(f, items, mitems)
+        if verdict == "order":
+            order_only += 1
+        elif verdict == "differ":
+            d = {k: [describe_item(x) for x in v] for k, v in diff.items()}
+            col.model_diff(phase + "-rendering-" + f, dict(rec, format=f, difference=d,
+                           what="the -f %s output is not the rendering the model defines for these problems" % f))
+        if not stats_full and st is not None:
+            st, mstats = tuple(st)[1:3], tuple(mstats)[1:3]
+        if f == "stylish" and st is not None and tuple(st) != tuple(mstats) and all_oracles_ok:
+            col.model_diff(phase + "-stylish-summary", dict(rec, format=f, impl_summary=st, model_summary=mstats,
+                           what="stylish summary (total, errors, warnings, ignored) %s, model %s" % (st, mstats)))
+    return order_only
+
+
 def phase_merge(ctx, probe, col, cov, replay_cases=None):
     work = os.path.dirname(ctx.path("merge", "x"))
+    cwd = os.path.join(work, "cwd")
+    os.makedirs(os.path.join(cwd, "sub"), exist_ok=True)
     if replay_cases is not None:
         cases, hist = replay_cases, {}
     else:
-        cases, hist = gen_merge_cases(ctx, work)
+        cases, hist = gen_merge_cases(ctx, cwd)
     # one sub-case per format
     subs = []
     for i, c in enumerate(cases):
@@ -615,7 +1590,7 @@ def phase_merge(ctx, probe, col, cov, replay_cases=None):
         k, part = arg
         wd = os.path.join(work, "w%d" % k)
         os.makedirs(wd, exist_ok=True)
-        return probe_lines(probe, "merge", wd, [{kk: v for kk, v in s.items() if kk != "_case"} for s in part])
+        return probe_lines(probe, "merge", wd, [{kk: v for kk, v in s.items() if kk not in ("_case", "builds")} for s in part], extra=[cwd])
 
     with ThreadPoolExecutor(max_workers=len(parts)) as ex:
         results = [r for part in ex.map(runpart, list(enumerate(parts))) for r in part]
@@ -624,11 +1599,13 @@ def phase_merge(ctx, probe, col, cov, replay_cases=None):
         fail = flag_list(s["fail"])
         if fail is None:
             fail = ["all"]
-        lines.append("exit %s %s %d 0 %s D:%s" % (xl(s["analyzers"]), xl(fail), 1 if s["show_ignored"] else 0, s["format"],
+        lines.append("exit %s %s %d %d %s D:%s" % (xl(s["analyzers"]), xl(fail), 1 if s["show_ignored"] else 0, 1 if s.get("no_compile") else 0, s["format"],
                                                    ",".join("%s/%d" % (xn(d["cat"]), 1 if d["sev"] == 2 else 0) for d in s["diags"])))
     model = vlib.run_model(ctx, "C11", lines)
     nontrivial = set()
     per_case = {}
+    struct_case = {}
+    oracle_ok = {}
     sev_suspects = []
     for s, r, m, line in zip(subs, results, model, lines):
         if m == "bad-op":
@@ -645,23 +1622,31 @@ def phase_merge(ctx, probe, col, cov, replay_cases=None):
         if exp != mexp or (oexit[fmt] is not None and oexit[fmt] != mexit):
             col.internal.append({"phase": "merge", "case": case, "format": fmt, "model": m, "oracle_exit": oexit[fmt]})
         try:
-            got, sev = parse_output(fmt, r["out"], os.path.join(work, "w0"))
-        except (ValueError, KeyError, IndexError) as e:
+            got, sev = parse_output(fmt, r["out"], cwd)
+            struct_case.setdefault(s["_case"], {})[fmt] = struct_output(fmt, r["out"], has_build=bool(case.get("builds")))
+        except (ValueError, KeyError, IndexError, AttributeError) as e:
+            oracle_ok[s["_case"]] = False
             col.oracle_fail("merge-format-unparsable", {"phase": "merge", "case": case, "format": fmt, "stdout": r["out"][:2000], "error": str(e),
                                                         "what": "output of -f %s cannot be parsed back to problems" % fmt})
             continue
+        if case.get("builds") and fmt == "text":
+            # the build name is part of the text line, not of the message
+            got = sorted((t[0], t[1], t[2], t[3], re.sub(r" \[[^\]\s]+\]$", "", t[4])) for t in got)
         per_case.setdefault(s["_case"], {})[fmt] = got
         rec = {"phase": "merge", "case": case, "format": fmt, "exit_status": r["rc"], "printed": got}
         if got != exp:
+            oracle_ok[s["_case"]] = False
             rec["expected_printed"] = exp
             rec["what"] = "-f %s does not render exactly the problems to be shown (all problems, ignored ones only under -show-ignored)" % fmt
             col.oracle_fail("merge-printed-" + fmt, rec)
         if oexit[fmt] is not None and r["rc"] != oexit[fmt]:
+            oracle_ok[s["_case"]] = False
             rec = dict(rec)
             rec["expected_exit_status"] = oexit[fmt]
             live_fail = [d["cat"] for d in case["diags"] if d["sev"] != 2]
-            rec["what"] = ("exit status %d, but per the property it is %d: live problems %s, -fail %r, format %s, ignored problems %s"
-                           % (r["rc"], oexit[fmt], live_fail, case["fail"], fmt, [d["cat"] for d in case["diags"] if d["sev"] == 2]))
+            rec["what"] = ("exit status %d, but per the property it is %d: live problems %s, -fail %r, format %s, ignored problems %s%s"
+                           % (r["rc"], oexit[fmt], live_fail, case["fail"], fmt, [d["cat"] for d in case["diags"] if d["sev"] == 2],
+                              ", -debug.no-compile-errors" if case.get("no_compile") else ""))
             cls = "merge-exit-ignored-counted" if (case["show_ignored"] and any(d["sev"] == 2 for d in case["diags"])) else "merge-exit"
             col.oracle_fail(cls, rec)
         elif r["rc"] != mexit:
@@ -677,8 +1662,42 @@ def phase_merge(ctx, probe, col, cov, replay_cases=None):
             nontrivial.add((json.dumps(case["analyzers"]), case["fail"], case["show_ignored"], mshown))
     for i, byfmt in per_case.items():
         if len(byfmt) == len(FORMATS) and len({json.dumps(v) for v in byfmt.values()}) > 1:
+            oracle_ok[i] = False
             col.oracle_fail("merge-formats-disagree", {"phase": "merge", "case": cases[i], "printed_by_format": byfmt,
                                                        "what": "text, stylish, JSON and SARIF do not render the same set of problems"})
+    # ---- field by field: the four real renderings against each other and against the model
+    flines, fowner = [], []
+    for i, st in struct_case.items():
+        if len(st) != len(FORMATS):
+            continue
+        case = cases[i]
+        fail = flag_list(case["fail"])
+        if fail is None:
+            fail = ["all"]
+        # the model gets the problems in the order the run printed them (sorting is C12's subject)
+        order = {}
+        for k, j in enumerate(st["json"][2]):
+            order[(j["location"]["file"], j["location"]["line"], j["location"]["column"], j["code"], j["message"])] = k
+        probs = sorted(case["diags"], key=lambda d: order.get(diag_tuple(d), len(order)))
+        probs = [prob_of_spec(d) for d in probs]
+        for f in FORMATS:
+            flines.append(fmt_line(f, case["show_ignored"], case.get("no_compile"), case["analyzers"], fail, cwd, probs))
+            fowner.append((i, f))
+    fmodel = vlib.run_model(ctx, "C11", flines)
+    by_case = {}
+    for (i, f), m, line in zip(fowner, fmodel, flines):
+        if m == "bad-op":
+            raise vlib.HarnessError("model rejected: " + line[:400])
+        by_case.setdefault(i, {})[f] = parse_fmt_model(m)
+    order_only = 0
+    rich_cases = 0
+    for i, mb in by_case.items():
+        case = cases[i]
+        rec = {"phase": "merge", "case": case}
+        order_only += field_checks(col, "merge", rec, struct_case[i], cwd, case["show_ignored"], mb, oracle_ok.get(i, True))
+        # sarif: the rules are the analyzers sorted by ID (part of the rendering), compared above
+        if any(d.get("related") or d.get("has_end") for d in case["diags"]):
+            rich_cases += 1
     # severity in JSON is how the -fail map shows for all analyzers at once; it is not part of
     # the statement, so a difference is followed up through the exit status of one-problem runs
     if sev_suspects and not col.oracle:
@@ -691,8 +1710,8 @@ def phase_merge(ctx, probe, col, cov, replay_cases=None):
                 continue
             seen.add(key)
             follow.append({"analyzers": c["analyzers"], "fail": c["fail"], "show_ignored": False, "format": "text", "id": len(follow),
-                           "diags": [{"file": os.path.join(work, "f0.go"), "line": 1, "col": 1, "cat": sdiff["cat"], "msg": "probe", "sev": 0}]})
-        fres = probe_lines(probe, "merge", os.path.join(work, "w0"), follow)
+                           "diags": [{"file": os.path.join(cwd, "f0.go"), "line": 1, "col": 1, "cat": sdiff["cat"], "msg": "probe", "sev": 0}]})
+        fres = probe_lines(probe, "merge", os.path.join(work, "w0"), follow, extra=[cwd])
         found = False
         for c, r in zip(follow, fres):
             known = frozenset(n.lower() for n in c["analyzers"])
@@ -704,31 +1723,57 @@ def phase_merge(ctx, probe, col, cov, replay_cases=None):
                                                "what": "one live problem of check %s with -fail %r exits %d" % (c["diags"][0]["cat"], c["fail"], r["rc"])})
         if not found:
             col.model_diff("merge-severity", sev_suspects[0])
-    cov["merge"] = {"cases": len(cases), "executions_of_real_command": len(subs), "nontrivial": len(nontrivial), "histogram": hist,
+    # ---- exit code 2: `-merge -f binary` and unsupported formats (model: mergeExit)
+    e2 = []
+    for i, c in enumerate(cases[:40]):
+        for f in ("binary", "xml", "Text", "null"):
+            e2.append(dict({kk: v for kk, v in c.items() if kk != "builds"}, format=f, id=len(e2), _case=i))
+    e2res = probe_lines(probe, "merge", os.path.join(work, "w0"), [{kk: v for kk, v in s.items() if kk != "_case"} for s in e2], extra=[cwd])
+    e2lines = []
+    for s in e2:
+        fail = flag_list(s["fail"])
+        if fail is None:
+            fail = ["all"]
+        e2lines.append("exitcode merge %s %d %d %s %s P:%s" % (xn(s["format"]), 1 if s["show_ignored"] else 0, 1 if s.get("no_compile") else 0,
+                                                             xl(s["analyzers"]), xl(fail), ",".join(xprob(prob_of_spec(d)) for d in s["diags"])))
+    e2model = vlib.run_model(ctx, "C11", e2lines)
+    for s, r, m in zip(e2, e2res, e2model):
+        if m == "bad-op":
+            raise vlib.HarnessError("model rejected an exitcode line")
+        case = cases[s["_case"]]
+        known = frozenset(n.lower() for n in case["analyzers"])
+        if s["format"] == "null":
+            _, oexit = merge_expected(case, known)
+            want = oexit["text"]
+        else:
+            want = 2
+        rec = {"phase": "merge", "case": case, "format": s["format"], "exit_status": r["rc"], "expected_exit_status": want}
+        if want is not None and r["rc"] != want:
+            col.oracle_fail("merge-exit-code", dict(rec, what="staticcheck -merge -f %s exits %d, expected %d (2 = unusable format; `null` prints nothing but exits like text)"
+                                                              % (s["format"], r["rc"], want)))
+        elif r["rc"] != int(m):
+            col.model_diff("merge-exit-code", dict(rec, model=m))
+        if s["format"] == "null" and r["out"] != "":
+            col.oracle_fail("merge-null-prints", dict(rec, stdout=r["out"][:500], what="-f null printed something"))
+    cov["merge"] = {"cases": len(cases), "executions_of_real_command": len(subs) + len(e2), "nontrivial": len(nontrivial), "histogram": hist,
+                    "renderings_compared_field_by_field": len(flines), "cases_with_end_or_related": rich_cases,
+                    "renderings_differing_only_in_order": order_only, "exit_code_2_cases": len(e2),
                     "sample": [{"input": {k: v for k, v in subs[i].items() if k != "_case"}, "impl_rc": results[i]["rc"], "model": model[i]}
                                for i in (0, min(len(subs) - 1, 41))]}
-    return len(subs), len(nontrivial)
+    return len(subs) + len(e2), len(nontrivial)
 
 
 # =========================================================================== phase C: the real binary
 
-_tls = threading.local()
-_cache_counter = [0]
-_cache_lock = threading.Lock()
+def shared_cache(ctx):
+    """one STATICCHECK_CACHE for every run of the real binary in this check (the cache is safe
+    for concurrent use; the reference run of phase cli warms it)"""
+    return os.path.dirname(ctx.path("sccache", "x"))
 
 
-def worker_cache(ctx):
-    if not hasattr(_tls, "cache"):
-        with _cache_lock:
-            _cache_counter[0] += 1
-            k = _cache_counter[0]
-        _tls.cache = os.path.dirname(ctx.path("sccache%d" % k, "x"))
-    return _tls.cache
-
-
-def run_sc(ctx, binary, cwd, args, timeout=600):
-    env = vlib.go_env({"STATICCHECK_CACHE": worker_cache(ctx)})
-    rc, so, se = vlib.run([binary] + args, cwd=cwd, env=env, timeout=timeout)
+def run_sc(ctx, binary, cwd, args, timeout=900, stdin=None):
+    env = vlib.go_env({"STATICCHECK_CACHE": shared_cache(ctx)})
+    rc, so, se = vlib.run([binary] + args, cwd=cwd, env=env, timeout=timeout, input=stdin)
     return rc, so, se
 
 
@@ -843,6 +1888,9 @@ def phase_cli(ctx, binary, probe, real_names, default_checks, col, cov, replay=N
     if rc not in (0, 1):
         raise vlib.HarnessError("reference run failed: rc=%d %s" % (rc, se[-1000:]))
     u_all = rel_tuples(parse_json(so, refmod)[0], refmod)
+    ref_objs = struct_json(so)[1]
+    if not positions_wellformed(ref_objs):
+        raise vlib.HarnessError("fixture: a position without line has a column")
     rc, so, se = run_sc(ctx, binary, refmod, ["-f=json", "-checks=all", "./..."])
     u_live = rel_tuples(parse_json(so, refmod)[0], refmod)
     ignored = sorted(set(u_all) - set(u_live))
@@ -919,6 +1967,30 @@ def phase_cli(ctx, binary, probe, real_names, default_checks, col, cov, replay=N
                                                         ",".join("%s/%d" % (xn(t[3]), 1 if t in ignored else 0) for t in model_printed[ci])))
     m3 = vlib.run_model(ctx, "C11", lines3)
 
+    # ---- field by field: the model renders, for every format, the reference problems restricted
+    # to the documented selection (rebased to the directory of the case)
+    def rebase(path, root):
+        return os.path.join(root, os.path.relpath(path, refmod)) if path else path
+
+    def ref_problem(j, root):
+        d = prob_of_json(j)
+        t = (os.path.relpath(d["file"], refmod) if d["file"] else "", d["line"], d["col"], d["cat"], d["msg"])
+        d["ignored"] = t in ignored
+        d["file"], d["efile"] = rebase(d["file"], root), rebase(d["efile"], root)
+        for r in d["related"]:
+            r["file"], r["efile"] = rebase(r["file"], root), rebase(r["efile"], root)
+        return t, d
+    flines = []
+    for ci, c in enumerate(cases):
+        fail = flag_list(c["fail"]) if c["fail"] is not None else ["all"]
+        root = jobs[ci * len(FORMATS)][2]
+        sel = set(model_printed[ci])
+        probs = [d for t, d in (ref_problem(j, root) for j in ref_objs) if t in sel]
+        for f in FORMATS:
+            flines.append(fmt_line(f, c["show_ignored"], False, real_names, fail, root, probs))
+    fmodel = [parse_fmt_model(m) for m in vlib.run_model(ctx, "C11", flines)]
+    order_only = 0
+
     nontrivial = set()
     k = 0
     for ci, c in enumerate(cases):
@@ -940,6 +2012,8 @@ def phase_cli(ctx, binary, probe, real_names, default_checks, col, cov, replay=N
         if exp_sel != model_printed[ci]:
             col.internal.append({"phase": "cli", "case": c, "model_selected": model_printed[ci], "oracle_selected": exp_sel})
         byfmt = {}
+        struct = {}
+        case_ok = True
         for f in FORMATS:
             (cc, ff, cwd), (rc, so, se) = jobs[k], results[k]
             mexit = int(m3[k].split(" ")[0])
@@ -948,17 +2022,21 @@ def phase_cli(ctx, binary, probe, real_names, default_checks, col, cov, replay=N
             rec = {"phase": "cli", "case": c, "format": f, "args": cli_args(c, f), "exit_status": rc,
                    "effective_checks_documented": effs, "stderr": se[-600:]}
             if rc not in (0, 1):
+                case_ok = False
                 col.oracle_fail("cli-crash", dict(rec, what="staticcheck exited %d" % rc))
                 continue
             try:
                 got = rel_tuples(parse_output(f, so, cwd)[0], cwd)
-            except (ValueError, KeyError, IndexError) as e:
+                struct[f] = struct_output(f, so)
+            except (ValueError, KeyError, IndexError, AttributeError) as e:
+                case_ok = False
                 col.oracle_fail("cli-format-unparsable", dict(rec, stdout=so[:2000], error=str(e), what="-f %s output cannot be parsed back" % f))
                 continue
             byfmt[f] = got
             rec["printed"] = got
             mshown = sorted(t for t, ch in zip(model_printed[ci], mshown_s) if ch != "-")
             if got != exp_shown:
+                case_ok = False
                 missing = sorted(set(exp_shown) - set(got))
                 extra = sorted(set(got) - set(exp_shown))
                 col.oracle_fail("cli-printed", dict(rec, expected_printed=exp_shown, missing=missing, unexpected=extra,
@@ -971,6 +2049,7 @@ def phase_cli(ctx, binary, probe, real_names, default_checks, col, cov, replay=N
             live_printed = [t[3] for t in got if t not in ignored]
             oexit_obs = o_exit(f, live_printed, fail, known)
             if rc != oexit_obs:
+                case_ok = False
                 cls = "cli-exit-ignored-counted" if (c["show_ignored"] and any(t in ignored for t in got)) else "cli-exit"
                 col.oracle_fail(cls, dict(rec, expected_exit_status=oexit_obs, live_problems=live_printed,
                                 ignored_problems_shown=[t[3] for t in got if t in ignored],
@@ -981,18 +2060,31 @@ def phase_cli(ctx, binary, probe, real_names, default_checks, col, cov, replay=N
             if oexit != mexit:
                 col.internal.append({"phase": "cli", "case": c, "format": f, "model_exit": mexit, "oracle_exit": oexit})
         if len(byfmt) == len(FORMATS) and len({json.dumps(v) for v in byfmt.values()}) > 1:
+            case_ok = False
             col.oracle_fail("cli-formats-disagree", {"phase": "cli", "case": c, "printed_by_format": byfmt,
                                                      "what": "text, stylish, JSON and SARIF do not render the same set of problems"})
+        if len(struct) == len(FORMATS):
+            cwd = jobs[ci * len(FORMATS)][2]
+            mb = {f: fmodel[ci * len(FORMATS) + fi] for fi, f in enumerate(FORMATS)}
+            frec = {"phase": "cli", "case": c, "args": cli_args(c, "<format>"), "effective_checks_documented": effs}
+            if case_ok:
+                order_only += field_checks(col, "cli", frec, struct, cwd, c["show_ignored"], mb, True)
+            else:
+                bad = cross_format(struct, cwd, c["show_ignored"])
+                if bad:
+                    col.oracle_fail("cli-formats-fields", dict(frec, discrepancies=bad[:8], what="the four formats differ field by field: " + bad[0]))
         per_pkg = [len([t for t in exp_sel if os.path.dirname(t[0]) == p]) for p in PKGS]
         if any(0 < n < len(upkg[p]) for n, p in zip(per_pkg, PKGS)):
             nontrivial.add(c["id"])
     cov["cli"] = {"cases": len(cases), "runs_of_real_binary": len(jobs) + 2, "nontrivial": len(nontrivial), "histogram": hist,
+                  "renderings_compared_field_by_field": len(flines), "renderings_differing_only_in_order": order_only,
                   "sample": [{"case": cases[i], "exit_text": results[i * 4][0]} for i in (1, 2, min(len(cases) - 1, 5)) if i < len(cases)]}
     return len(jobs) + 2, len(nontrivial)
 
 
 def phase_corpus(ctx, binary, real_names, col, cov):
-    """fixed modules: ignored-only (DESIGN §6 row 7), directive / config / compile problems."""
+    """fixed modules: ignored-only (DESIGN §6 row 7), directive / config / compile problems,
+    related information, test variants, -debug.no-compile-errors, exit code 2."""
     base = os.path.dirname(ctx.path("corpus", "x"))
     no_conf_above(base)
     known = frozenset(n.lower() for n in real_names)
@@ -1001,6 +2093,9 @@ def phase_corpus(ctx, binary, real_names, col, cov):
     for i, c in enumerate(cases):
         root = os.path.join(base, "k%d" % i)
         write_tree(root, c["files"])
+        if "expect_exit" in c:
+            jobs.append((i, "raw", root, list(c["args"])))
+            continue
         for f in FORMATS:
             jobs.append((i, f, root, ["-f=" + f] + c["args"] + ["./..."]))
         # companion: the live problems (= printed without -show-ignored)
@@ -1009,14 +2104,25 @@ def phase_corpus(ctx, binary, real_names, col, cov):
 
     def one(job):
         i, f, root, args = job
-        return run_sc(ctx, binary, root, args)
+        return run_sc(ctx, binary, root, args, stdin=cases[i].get("stdin", ""))
 
     with ThreadPoolExecutor(max_workers=min(8, vlib.NCPU)) as ex:
         results = list(ex.map(one, jobs))
     by = {}
     for (i, f, root, args), (rc, so, se) in zip(jobs, results):
         by.setdefault(i, {})[f] = (rc, so, se, root, args)
+    flines, fowner, structs = [], [], {}
     for i, c in enumerate(cases):
+        if "expect_exit" in c:
+            rc, so, se, root, args = by[i]["raw"]
+            rec = {"phase": "corpus", "case": c["name"], "why": c["why"], "args": args, "exit_status": rc, "expected_exit_status": c["expect_exit"],
+                   "files": c["files"], "stderr": se[-400:]}
+            if rc != c["expect_exit"]:
+                col.oracle_fail("cli-exit-code", dict(rec, what="%s: `staticcheck %s` exits %d, expected %d" % (c["name"], " ".join(args), rc, c["expect_exit"])))
+            ml = vlib.run_model(ctx, "C11", ["exitcode %s %s 0 0 %s %s P:" % (c.get("mode", "lint"), xn(c["format"]), xl(real_names), xl(["all"]))])[0] if "format" in c else None
+            if ml is not None and int(ml) != c["expect_exit"]:
+                col.internal.append({"phase": "corpus", "case": c["name"], "model_exit": ml})
+            continue
         rc, so, se, root, args = by[i].get("live") or by[i]["json"]
         if rc not in (0, 1):
             col.oracle_fail("corpus-crash", {"phase": "corpus", "case": c["name"], "args": args, "exit_status": rc, "stderr": se[-800:], "what": "staticcheck exited %d" % rc})
@@ -1027,6 +2133,7 @@ def phase_corpus(ctx, binary, real_names, col, cov):
             if a.startswith("-fail="):
                 fail = flag_list(a[len("-fail="):])
         byfmt = {}
+        struct = {}
         for f in FORMATS:
             rc, so, se, root, args = by[i][f]
             rec = {"phase": "corpus", "case": c["name"], "why": c["why"], "args": args, "format": f, "exit_status": rc, "files": c["files"]}
@@ -1035,7 +2142,8 @@ def phase_corpus(ctx, binary, real_names, col, cov):
                 continue
             try:
                 got = rel_tuples(parse_output(f, so, root)[0], root)
-            except (ValueError, KeyError, IndexError) as e:
+                struct[f] = struct_output(f, so)
+            except (ValueError, KeyError, IndexError, AttributeError) as e:
                 col.oracle_fail("corpus-format-unparsable", dict(rec, stdout=so[:2000], error=str(e), what="-f %s output cannot be parsed back" % f))
                 continue
             byfmt[f] = got
@@ -1054,7 +2162,29 @@ def phase_corpus(ctx, binary, real_names, col, cov):
         if len(byfmt) == len(FORMATS) and len({json.dumps(v) for v in byfmt.values()}) > 1:
             col.oracle_fail("cli-formats-disagree", {"phase": "corpus", "case": c["name"], "printed_by_format": byfmt,
                                                      "what": "text, stylish, JSON and SARIF do not render the same set of problems"})
-    cov["corpus"] = {"cases": [c["name"] for c in cases], "runs_of_real_binary": len(jobs)}
+        if len(struct) == len(FORMATS):
+            structs[i] = struct
+            # the model renders the problems the JSON run shows (severity recomputed from -fail)
+            probs = [prob_of_json(j) for j in struct["json"][2]]
+            for f in FORMATS:
+                flines.append(fmt_line(f, "-show-ignored" in c["args"], "-debug.no-compile-errors" in c["args"], real_names, fail, by[i][f][3], probs))
+                fowner.append((i, f))
+    fmodel = vlib.run_model(ctx, "C11", flines) if flines else []
+    mb = {}
+    for (i, f), m in zip(fowner, fmodel):
+        if m == "bad-op":
+            raise vlib.HarnessError("model rejected a corpus fmt line")
+        mb.setdefault(i, {})[f] = parse_fmt_model(m)
+    nrel = 0
+    for i, struct in structs.items():
+        c = cases[i]
+        si = "-show-ignored" in c["args"]
+        rec = {"phase": "corpus", "case": c["name"], "why": c["why"], "args": c["args"], "files": c["files"]}
+        field_checks(col, "corpus", rec, struct, by[i]["json"][3], si, mb[i], True,
+                     stats_full=si and "-debug.no-compile-errors" not in c["args"])
+        nrel += sum(1 for j in struct["json"][2] if j.get("related"))
+    cov["corpus"] = {"cases": [c["name"] for c in cases], "runs_of_real_binary": len(jobs), "renderings_compared_field_by_field": len(flines),
+                     "problems_with_related_information": nrel}
     return len(jobs)
 
 
@@ -1070,8 +2200,13 @@ def phase_binary_merge(ctx, binary, probe, real_names, col, cov):
     for i in range(n):
         diags = []
         for j in range(1 + rng.below(6)):
-            diags.append({"file": os.path.join(base, "f%d.go" % (j % 2)), "line": j + 1, "col": 1 + rng.below(5), "cat": rng.choice(pool),
-                          "msg": "problem %d %s" % (j, rng.choice(WORDS)), "sev": 2 if rng.chance(3, 10) else 0})
+            d = {"file": os.path.join(base, "f%d.go" % (j % 2)), "line": j + 1, "col": 1 + rng.below(5), "cat": rng.choice(pool),
+                 "msg": "problem %d %s" % (j, rng.choice(WORDS)), "sev": 2 if rng.chance(3, 10) else 0}
+            if rng.chance(1, 2):
+                d.update(has_end=True, eline=d["line"], ecol=d["col"] + 1 + rng.below(9))
+            if rng.chance(1, 4):
+                d["related"] = [{"file": d["file"], "line": 40 + j, "col": 2, "eline": 40 + j, "ecol": 5, "msg": "related " + rng.choice(WORDS)}]
+            diags.append(d)
         fail = None if rng.chance(1, 5) else cmdline_value(gen_list(rng, pool[:9], False, hist, maxlen=3))
         cases.append({"id": i, "path": os.path.join(base, "in%d.gob" % i), "diags": diags, "fail": fail, "show_ignored": rng.chance(1, 2)})
     probe_lines(probe, "gob", None, [{"path": c["path"], "diags": c["diags"]} for c in cases])
@@ -1088,6 +2223,31 @@ def phase_binary_merge(ctx, binary, probe, real_names, col, cov):
 
     with ThreadPoolExecutor(max_workers=min(8, vlib.NCPU)) as ex:
         results = list(ex.map(one, jobs))
+    structs = {}
+    for (c, f), (rc, so, se) in zip(jobs, results):
+        if rc in (0, 1):
+            try:
+                structs.setdefault(c["id"], {})[f] = struct_output(f, so)
+            except (ValueError, KeyError, IndexError, AttributeError):
+                pass
+    flines, fowner = [], []
+    for c in cases:
+        st = structs.get(c["id"], {})
+        if len(st) != len(FORMATS):
+            continue
+        fail = flag_list(c["fail"]) if c["fail"] is not None else ["all"]
+        order = {(j["location"]["file"], j["location"]["line"], j["location"]["column"], j["code"], j["message"]): k for k, j in enumerate(st["json"][2])}
+        probs = [prob_of_spec(d) for d in sorted(c["diags"], key=lambda d: order.get(diag_tuple(d), len(order)))]
+        for f in FORMATS:
+            flines.append(fmt_line(f, c["show_ignored"], False, real_names, fail, base, probs))
+            fowner.append((c["id"], f))
+    mb = {}
+    for (i, f), m in zip(fowner, vlib.run_model(ctx, "C11", flines) if flines else []):
+        mb.setdefault(i, {})[f] = parse_fmt_model(m)
+    for c in cases:
+        if c["id"] in mb:
+            field_checks(col, "binmerge", {"phase": "binmerge", "case": {k: v for k, v in c.items() if k != "path"}}, structs[c["id"]], base,
+                         c["show_ignored"], mb[c["id"]], True)
     for (c, f), (rc, so, se) in zip(jobs, results):
         cc = {"analyzers": real_names, "fail": c["fail"], "show_ignored": c["show_ignored"], "diags": c["diags"]}
         shown, oexit = merge_expected(cc, known)
@@ -1134,11 +2294,16 @@ def run(ctx):
     cov = {}
     import time
     timing = {"lean_and_builds_s": round(time.time() - ctx.t0, 1)}
+    cpu0 = os.times()
 
     def timed(name, f, *a):
         t = time.time()
+        c0 = os.times()
         r = f(*a)
+        c1 = os.times()
         timing[name + "_s"] = round(time.time() - t, 1)
+        timing[name + "_cpu_s"] = round((c1.children_user + c1.children_system + c1.user + c1.system)
+                                        - (c0.children_user + c0.children_system + c0.user + c0.system), 1)
         return r
     replay = None
     if ctx.replay:
@@ -1148,36 +2313,61 @@ def run(ctx):
 
     ph = replay.get("phase") if replay else None
     rcases = replay.get("cases") if replay else None
-    if ph in (None, "load"):
+    # development aid (mutation experiments): C11_ONLY=merge,sel runs only these phases
+    only = [x for x in os.environ.get("C11_ONLY", "").split(",") if x]
+
+    if only and ph is None:
+        ctx.notes.append("C11_ONLY=%s: only these phases were run" % ",".join(only))
+    _phases = ["sel", "tree", "lintpkg", "load", "merge", "cli", "corpus", "binmerge"]
+    skip = set(p_ for p_ in _phases if only and p_ not in only)
+    evaluations += timed("chars", phase_chars, ctx, probe, cov)
+    if ph in (None, "sel") and "sel" not in skip:
+        e, n = timed("sel", phase_sel, ctx, probe, real_names, default_checks, col, cov, rcases)
+        evaluations += e
+        nontrivial += n
+    if ph in (None, "tree") and "tree" not in skip:
+        e, n = timed("tree", phase_tree, ctx, probe, real_names, default_checks, col, cov, rcases)
+        evaluations += e
+        nontrivial += n
+    if ph in (None, "lintpkg") and "lintpkg" not in skip:
+        e, n = timed("lintpkg", phase_lintpkg, ctx, probe, col, cov, rcases)
+        evaluations += e
+        nontrivial += n
+    if ph in (None, "load") and "load" not in skip:
         e, n = timed("load", phase_load, ctx, probe, real_names, default_checks, col, cov, rcases)
         evaluations += e
         nontrivial += n
-    if ph in (None, "merge"):
+    if ph in (None, "merge") and "merge" not in skip:
         e, n = timed("merge", phase_merge, ctx, probe, col, cov, rcases)
         evaluations += e
         nontrivial += n
-    if ph in (None, "corpus"):
-        evaluations += timed("corpus", phase_corpus, ctx, binary, real_names, col, cov)
-    if ph in (None, "cli"):
+    if ph in (None, "cli") and "cli" not in skip:
+        # first: its reference run warms the cache every later run of the binary shares
         e, n = timed("cli", phase_cli, ctx, binary, probe, real_names, default_checks, col, cov, rcases)
         evaluations += e
         nontrivial += n
-    if ph in (None, "binmerge"):
+    if ph in (None, "corpus") and "corpus" not in skip:
+        evaluations += timed("corpus", phase_corpus, ctx, binary, real_names, col, cov)
+    if ph in (None, "binmerge") and "binmerge" not in skip:
         evaluations += timed("binmerge", phase_binary_merge, ctx, binary, probe, real_names, col, cov)
+    cpu1 = os.times()
+    timing["cpu_children_s"] = round((cpu1.children_user + cpu1.children_system) - (cpu0.children_user + cpu0.children_system), 1)
 
     if col.internal:
         raise vlib.HarnessError("the Lean model and the Python oracle disagree with each other (check machinery is inconsistent): %s"
                                 % json.dumps(col.internal[0])[:3000])
 
     samples = []
-    for ph in ("load", "merge", "cli"):
+    for ph in ("sel", "tree", "lintpkg", "load", "merge", "cli"):
         if ph in cov and "sample" in cov[ph]:
             samples += [{"phase": ph, **s} for s in cov[ph].pop("sample")][:2]
     ctx.coverage.update({
         "evaluations": evaluations,
         "distinct_nontrivial": nontrivial,
-        "rule": "load: >=2 files set `checks` or one uses \"inherit\"; merge: the -fail map splits the shown problems into errors and warnings, "
-                "or an ignored problem is shown; cli: some package prints a non-empty proper subset of its problems",
+        "rule": "sel: a list of >= 2 entries that selects a non-empty proper subset of the analyzers; tree: the package's directory chain has >= 2 files that "
+                "set `checks`, or one plus a file in a directory that is not an ancestor; lintpkg: a useless-directive problem is reported, or some but not all "
+                "line directives are silenced by the selection; load: >=2 files set `checks` or one uses \"inherit\"; merge: the -fail map splits the shown "
+                "problems into errors and warnings, or an ignored problem is shown; cli: some package prints a non-empty proper subset of its problems",
         "samples": samples,
         "phases": cov,
         "timing": timing,
@@ -1185,27 +2375,38 @@ def run(ctx):
         "default_checks": default_checks,
     })
     ctx.assumptions += [
-        "check names and list entries are ASCII (strings.ToLower = Char.toLower, unicode.IsNumber = isDigit); the generators respect it",
+        "strings.ToLower / unicode.IsNumber are modelled by tables for ASCII + %d listed non-ASCII characters (numerals of categories Nd/No/Nl, letters "
+        "with one-to-one, many-to-one and ASCII-valued lower case); the generators stay inside this alphabet; the tables are compared with the Go "
+        "library on every character on every run (phase chars)" % len([c for c in ALPHABET if ord(c) > 127]),
         "TOML decoding (BurntSushi/toml), flag parsing of the comma separated lists (lintcmd.list.Set, mirrored in Python flag_list), "
         "go/packages and the analyzers themselves are outside the model; they are exercised by the runs",
-        "which problems are ignored is C10's subject: here it is read off the real runs (printed with minus printed without -show-ignored)",
-        "the order of problems and the merging of duplicates are C12's subject: outputs are compared as sorted lists of distinct problems",
-        "the four formatters have no Lean counterpart: the formats clause is checked by parsing the real outputs back (correspondence only)",
-        "-debug.no-compile-errors is modelled (noCompile) but not exercised",
+        "which problems are ignored is C10's subject: in the CLI runs it is read off the real runs (printed with minus printed without -show-ignored); "
+        "directive matching is modelled for glob-free check names only (filepath.Match is C10's subject)",
+        "the order of problems and the merging of duplicates are C12's subject: the model is given the problems in the order the JSON run printed them; "
+        "a rendering that differs from the model's only in the order of the problems is counted, not reported",
+        "the formatters are modelled as abstract renderings (lines / objects with their fields); the concrete bytes (tabwriter padding, JSON and URI "
+        "escaping, SARIF rule help texts, tool/invocation metadata) are reduced to that structure by the parsers of checks/c11.py (trusted)",
+        "shortPath is mirrored in Python (os.path.relpath + length comparison) and handed to the model as a table; a wrong mirror shows as a rendering difference",
+        "hypothesis Problem.wf of formats_agree (a position without line has no column; no file is called `-`) is probed on every real JSON output",
+        "config.Dir: a file is 'in the build cache' iff its name starts with os.UserCacheDir(); //line directives that move a file's position into another directory are not modelled",
+        "suggested fixes in SARIF (`fixes`) and the stat/open error paths of parseConfigs are not modelled",
     ]
 
-    how = ("./check C11 --replay <this file> re-runs the listed cases; by hand: phase load = harness/cmd/c11probe load <dir> (JSON case on stdin), "
-           "phase merge = c11probe merge <dir>, phase cli/corpus = build ./cmd/staticcheck, write corpus/C11/fixture (p.go into mod, mod/a, mod/a/b; "
+    how = ("./check C11 --replay <this file> re-runs the listed cases; by hand: phase sel/tree/lintpkg/load/merge = harness/cmd/c11probe <phase> [dir] with the JSON "
+           "case on stdin (sel: real filterAnalyzerNames; tree: real config.Analyzer per package; lintpkg: real success+filterIgnored; merge: real lintcmd.Command -merge), "
+           "phase cli/corpus = build ./cmd/staticcheck, write corpus/C11/fixture (p.go into mod, mod/a, mod/a/b; "
            "staticcheck.conf per `levels` b,a,mod,top) and run `staticcheck <args>` in mod")
     for cls, fails in sorted(col.oracle.items()):
         first = fails[0]
         phase = first.get("phase")
         rcases = None
-        if phase in ("load", "merge", "cli"):
+        if phase in ("sel", "tree", "lintpkg", "load", "merge", "cli"):
             seen, rcases = set(), []
             for f in fails:
+                if not isinstance(f.get("case"), dict):
+                    continue
                 key = json.dumps(f["case"], sort_keys=True)
-                if key not in seen and len(rcases) < 25 and isinstance(f["case"], dict):
+                if key not in seen and len(rcases) < 25:
                     seen.add(key)
                     rcases.append(f["case"])
         obj = {"property": "C11", "class": cls, "phase": phase, "what": first.get("what", cls), "how_to_replay": how,
@@ -1221,19 +2422,31 @@ def run(ctx):
             "lean": lean_broke,
             "streams": {k: {"count": len(v), "first": v[0]} for k, v in sorted(col.model.items())},
             "correspondence": "C11 stream %s; theorems %s" % (first_cls, ", ".join(THEOREMS)),
-        }, nofail=True)
+        }, nofail=True, text="C11 model/implementation correspondence broke: %s" % (
+            "; ".join("%s (%d): %s" % (k, len(v), str(v[0].get("what", ""))[:200]) for k, v in sorted(col.model.items())) or "lean: %s" % str(lean_broke)[:300]))
     return vlib.finish(ctx, "proof")
 
 
 META = {
     "level": "proof",
-    "technique": "Lean 4 theorems over a transliterated model of config merging, filterAnalyzerNames, success and the exit-status computation; "
-                 "executable correspondence in-process (config.Load on generated trees, lintcmd.Command -merge on crafted results) and end-to-end "
-                 "(the staticcheck binary on a fixed module under generated -checks/-fail/conf trees x 4 formats)",
-    "text": "selection_spec, effective_selection, printed_spec and exit_spec are proved for all analyzer sets, lists, directory walks and problem lists; "
-            "the model is tied to the code by three correspondence streams, and the property itself (documented algebra evaluated independently in Python) "
-            "is evaluated on every real output.",
-    "note": "Trusted: Lean kernel (axioms propext/Classical.choice/Quot.sound), c11driver (compiled model), harness/cmd/c11probe, the output parsers "
-            "of checks/c11.py. No hook in /repo is used.",
+    "technique": "Lean 4 theorems over a transliterated model of config merging (incl. the per-package directory lookup over arbitrary trees), "
+                 "filterAnalyzerNames (Unicode-aware on a probed alphabet), success + filterIgnored's selection dependent directive problems, the counting / "
+                 "exit-status computation incl. the exit code 2 paths, and the four formatters as abstract renderings with proved read-back functions; "
+                 "executable correspondence in-process (the real filterAnalyzerNames through go:linkname on >= 12 k lists per quick run, the real "
+                 "config.Analyzer + Merge + filterAnalyzerNames per package on generated directory trees, the real success + filterIgnored, the real "
+                 "lintcmd.Command -merge on crafted results with end positions / related information / build names x 4 formats) and end-to-end (the "
+                 "staticcheck binary on a fixed module under generated -checks/-fail/conf trees x 4 formats + 21 corpus modules), every real rendering "
+                 "compared field by field with the model's rendering and with the other formats",
+    "text": "selection_spec, effective_selection, package_selection (for all trees: the effective list of a package is the fold of the conf files from the "
+            "outermost directory inward followed by -checks), lintPackage_full_spec (directive problems depend on the selection), exit_spec, exit_code_spec, "
+            "and for the formats clause text_extract / stylish_extract / json_extract / sarif_extract (the problems readable from each rendering are exactly "
+            "the problems handed to the formatter) hence formats_agree / formats_same_problems, severity_spec, ignored_only_with_show_ignored, "
+            "sarif_suppression_spec, stylish_stats_spec are proved for all inputs; the model is tied to the code by nine correspondence streams, and the "
+            "property itself (documented algebra evaluated independently in Python; cross-format field agreement on the real outputs) is evaluated on "
+            "every real output.",
+    "note": "Trusted: Lean kernel (axioms propext/Classical.choice/Quot.sound), c11driver (compiled model), harness/cmd/c11probe (go:linkname to "
+            "lintcmd.filterAnalyzerNames / makeCaseFoldedStrings, the exported C10 wrapper VerifC10FilterIgnored of lintcmd/verif_c10.go), the output "
+            "parsers and the shortPath mirror of checks/c11.py. The former formats_same_problems (true by rfl) was replaced by the statement about the "
+            "formatters and is kept as lemma shown_list_format_independent.",
     "design_ref": "DESIGN.md section 5, C11; section 6 row 7",
 }
